@@ -12,1724 +12,810 @@ Definition show_fres (r : fres) : string :=
   end.
 Definition check (rs : list rune) : string := digest (show_fres (format_res rs)).
 Definition full (rs : list rune) : string := show_fres (format_res rs).
-Eval vm_compute in ("<<<M1332>>>" ++ check (runes_of_ascii "packet MetaDataX	{
-@lengthOf(// @lengthOf(
-len)
-charz ,uint8x@lengthOf(
-calculatedFrom ) ,
-// trailing space 
-// " ++ [27880; 37322]%N ++ runes_of_ascii "
-@rightPad ( '0' )repeat f32
-    // @lengthOf(
-    int , zchar[ //	t
-65535 ] o,
-    f64 i8i8 @calculatedFrom( ""it's""
-)  `// not a comment` , @rightPad( ' ') char[
-    1 ]
-pack @calculatedFrom(
-""""
-    // c
-    ) `" ++ [233]%N ++ runes_of_ascii "`
-,
-@tag( 0123456789 )
-msg_type @lengthOf( rootA ) ,
-    @tag( 10
-// a // b
-// a // b
-) repeat //x
-rootA , }MetaData
-    stringy { char[]
-pack , char[
-    4294967296 ] calculatedFrom
-    , i32	As ,char[
-0 ] uint8x ,
-    } // c
-root packet // trailing space 
-Foo { Logon `two words` ,
-    match len as
-stringy
-    { ""\" ++ [233]%N ++ runes_of_ascii """ :  calculatedFrom ,
-}
-,
-    }packet u
-    { repeat x falsey
-, repeat a1 , @lengthOf(T )
-// `tick` ""quote"" 'q'
-// " ++ [128512]%N ++ runes_of_ascii " emoji
-@lengthOf(options1 ) repeat// packet A { u8 x, }
-crc {
-// c
-// a // b
-zchar[10
-    // " ++ [128512]%N ++ runes_of_ascii " emoji
-    ] u128, match _x as
-int { 42 :
-// " ++ [27880; 37322]%N ++ runes_of_ascii "
-//
-o [	""// no comment"" ,  10 ] : chars[
-    //	t
-    ""`tick`""
-    ] : uint8x
-,""`tick`""
-: leftPad ,[ 42 , ""CRC32""
-, ""{,}"" , 4294967296
-,// trailing space 
-4294967296 ,""" ++ [128512]%N ++ runes_of_ascii """
-, """ ++ [128512]%N ++ runes_of_ascii """
-,	42 ]:  Z9_  ,// " ++ [128512]%N ++ runes_of_ascii " emoji
-""1"":
-a1, } ,} , @rightPad (	)@calculatedFrom(""it's""	)
-    // `tick` ""quote"" 'q'
-    @tag( 1
-    )uint8	A ,
-f32 f32a	,
-// @lengthOf(
-//
-body {char[] u@lengthOf( i8i8) `it's` , match
-    u8x as  a1// `tick` ""quote"" 'q'
-{ 7
-: float ,
-    [ ""a\\""
-    ,""packet"", 42 ,
-    10 ,  ""it's"",	3
-] :uint8x
-    ,
-""CRC32"":// c
-metadata,
-""it's"" : asx ,
-    [
-    ""a\""b""
-    // " ++ [128512]%N ++ runes_of_ascii " emoji
-    , 10 ] : trueish
-    ,
-""abc"" :falsey
-,
-} , calculatedFrom
-    repeatCount ,  u16 stringy `a\`
-, }
-,
-repeat tag { match msg_type as x_y_z
-{ 10
-    : lengthOf
-    ,
-42 // `tick` ""quote"" 'q'
-: Z9_ , 0123456789 :	A , [
-3
-    ,""" ++ [28040; 24687]%N ++ runes_of_ascii """
-    ,42 // trailing space 
-, ""abc"",65535,
-    ""`tick`""]
-: // " ++ [128512]%N ++ runes_of_ascii " emoji
-x_y_z ,
-[ 42
-// c
-// packet A { u8 x, }
-, 1 ] :
-// " ++ [128512]%N ++ runes_of_ascii " emoji
-//	t
-roots
-    , 007 :
-leftPad ,
-    },match leftPad as chars
-    {  3// `tick` ""quote"" 'q'
-:
-u8x }	, } , string
-zchar @calculatedFrom(""a\\"" ) `` ,
-    match zchar as
-//x
-//
-string_ // a // b
-{ 7 :Z9_ 4294967296 : options1 , ""a\""b"": chars
-    ,	""a\""b"" :u8x
-, [""CRC32"" , //x
-10] :As
-    , ""\" ++ [233]%N ++ runes_of_ascii """ : crc  ,
-}
-,
-    zchar `// not a comment` , } packet matchKey { @calculatedFrom(
-""\" ++ [233]%N ++ runes_of_ascii """ ) @tag( 007 )
-    @calculatedFrom( """") repeat//
-metadata chars ,repeat // `tick` ""quote"" 'q'
-T //	t
-{ repeat char u ,  } , //x
-@tag(
-65535 ) Pad{
-    match
-chars  as
-    BodyLength
-    { 0123456789 :
-Packet
-,""\" ++ [233]%N ++ runes_of_ascii """ : T// packet A { u8 x, }
-,""packet"": u ,
-    }
-/// triple
-// " ++ [128512]%N ++ runes_of_ascii " emoji
-, }
-    // trailing space 
-    , }
-")).
-Eval vm_compute in ("<<<M1238>>>" ++ check (runes_of_ascii "// " ++ [27880; 37322]%N ++ runes_of_ascii "
-packet A	{@calculatedFrom(
-    ""a	b"" ) u128 @lengthOf( asx /// triple
-)
-    `doc` , // `tick` ""quote"" 'q'
-charz
-    @lengthOf( repeatCount  ), i8 metadata @lengthOf( body )
-    `{ , }` ,
-@tag(
-    // `tick` ""quote"" 'q'
-    0123456789
-    ) repeat
-x_y_z lengthOf
-, @calculatedFrom(""{,}"" ) options1 { match metadata
-as chars  {""// no comment"": matchKey ,} , } , Z9_
-// trailing space 
-// @lengthOf(
-`` , repeat i64_``,  @tag( 42) uint8	chars @calculatedFrom(""abc"" ) , }MetaData charz
-{ char[]Packet
-, i64 string_
-    `{ , }` , // " ++ [128512]%N ++ runes_of_ascii " emoji
-int64 a1`tab	here`, }
-packet
-    matchKey//	t
-{
-    repeat x {string
-    // c
-    Logon`doc`
-    , } ,repeat
-u32// trailing space 
-chars
-    ,@calculatedFrom( // c
-""`tick`"") o falsey `say ""hi""` ,zchar[	007  ]string_ @lengthOf(Header ) `line1
-line2`
-    // trailing space 
-    ,match  x as uint8x {1 //
-:a1  ,  [ ""a	b"" , 42 ,
-65535 ]
-: T ,
-""" ++ [28040; 24687]%N ++ runes_of_ascii """ : metadata
-// packet A { u8 x, }
-// c
-, }
-    , match Z9_
-as	msg_type // a // b
-{ 65535: //	t
-u ,[
-// " ++ [128512]%N ++ runes_of_ascii " emoji
-// c
-7 ,
-    7// trailing space 
-, 42
-,""" ++ [28040; 24687]%N ++ runes_of_ascii """ ]
-    :
-asx ,""" ++ [233]%N ++ runes_of_ascii "t" ++ [233]%N ++ runes_of_ascii """ : _x,[
-// `tick` ""quote"" 'q'
-// " ++ [27880; 37322]%N ++ runes_of_ascii "
-255 ] : metadata , }// `tick` ""quote"" 'q'
-, float32 len	, repeat
-    len , @tag( 007
-    ) repeat f64
-pack
-    // trailing space 
-    ,
-} packet stringy
-    {
-// trailing space 
-// packet A { u8 x, }
-@lengthOf(As
-    ) @calculatedFrom(  ""\" ++ [233]%N ++ runes_of_ascii """ )@tag(
-7 ) u8 x_y_z@lengthOf( pack
-) `crlf
-line` ,
-uint8 chars `doc`
-,
-@calculatedFrom(""CRC32""	)
-@leftPad ( '0'	)
-    // @lengthOf(
-    @lengthOf(  leftPad ) match packetx
-// @lengthOf(
-// " ++ [128512]%N ++ runes_of_ascii " emoji
-as
-float	{[ ""// no comment"" ,
-007 ] :msg_type
-    , //	t
-1 // packet A { u8 x, }
-:
-    rootA
-, 7 : lengthOf // " ++ [128512]%N ++ runes_of_ascii " emoji
-,	[ // a // b
-""" ++ [128512]%N ++ runes_of_ascii """ ] :
-x , [ //
-42  , // `tick` ""quote"" 'q'
-65535 ]:// " ++ [27880; 37322]%N ++ runes_of_ascii "
-falsey ,// " ++ [27880; 37322]%N ++ runes_of_ascii "
-}
-//	t
-// packet A { u8 x, }
-, char[1 ] lengthOf @lengthOf(metadata	),u8 crc @calculatedFrom(
-""" ++ [128512]%N ++ runes_of_ascii """
-) `say ""hi""` , }
-")).
-Eval vm_compute in ("<<<M432>>>" ++ check (runes_of_ascii "packet rootA
-{ @rightPad ( '0' ) string
-leftPad	@calculatedFrom(
-""" ++ [233]%N ++ runes_of_ascii "t" ++ [233]%N ++ runes_of_ascii """ )
-    `two words` , } packet // a // b
-A{ @calculatedFrom( ""it's""	) char[] // @lengthOf(
-msg_type
-@lengthOf( asx ) `u8 x,` ,charz
-    o ,@calculatedFrom(""`tick`"" )
-    @lengthOf( // @lengthOf(
-crc
-// " ++ [27880; 37322]%N ++ runes_of_ascii "
-// trailing space 
-)
-    //
-    match // " ++ [128512]%N ++ runes_of_ascii " emoji
-falsey as metadata	{
-    // @lengthOf(
-    [
-65535
-, 65535
-] :u8x
-, ""\n""
-// @lengthOf(
-// @lengthOf(
-: int // " ++ [128512]%N ++ runes_of_ascii " emoji
-,
-    007 :MetaDataX,
-    ""it's""
-: f32a ,
-    0
-:
-    i8i8 , [
-65535
-, 255 ] : u8x
-,} ,
-    }	packet charz { string
-MetaDataX// a // b
-,
-    // packet A { u8 x, }
-    repeat	char[] _x,
-@rightPad(
-)
-    match pack as
-    //	t
-    string_ {""a	b""	: trueish ,
-""it's""
-// trailing space 
-//
-: A 10 :
-    T
-0
-:// trailing space 
-msg_type,
-    [ 7 ,
-    1 , ""1"" ,// `tick` ""quote"" 'q'
-00// " ++ [27880; 37322]%N ++ runes_of_ascii "
-, 10  ,4294967296
-,
-10 ]: Pad, }
-,// a // b
-A {
-repeat u128
-    { char[ 00 ] a1  `line1
-line2`, //x
-uint8x rootA `say ""hi""` , match uint8x as i64_
-{""" ++ [28040; 24687]%N ++ runes_of_ascii """
-: msg_type	,  ""\n"" : i8i8, } ,
-i64 x_y_z `{ , }` ,}
-// a // b
-// a // b
-, match zchar
-//	t
-// c
-as Header{	3
-:
-    pack	, ""x y"" :packetx ,
-    //x
-    255  : u8x, ""abc"": Z9_ ,""x y"" :
-msg_type [""a\\""
-    ,
-    10 // @lengthOf(
-] // `tick` ""quote"" 'q'
-:	o } , char[
-    // `tick` ""quote"" 'q'
-    0 ]
-    leftPad `{ , }`, string stringy
-@calculatedFrom(
-    ""`tick`""
-)
-    `u8 x,` ,  }, repeat zchar[ 00] // packet A { u8 x, }
-Packet ,repeat u16
-tag , @tag(65535  ) repeat uint64
-    MetaDataX , } MetaData pack { }")).
-Eval vm_compute in ("<<<M490>>>" ++ check (runes_of_ascii "root
-//
-// c
-packet
-As
-    { @calculatedFrom( ""{,}"" )
-// packet A { u8 x, }
-// @lengthOf(
-Header { repeat uint8 uint8x
-// a // b
-// @lengthOf(
-`// not a comment` ,
-    } ,@tag(3 ) repeat i64 i64_
-`it's`
-// a // b
-//	t
-, @lengthOf( i8i8
-// `tick` ""quote"" 'q'
-// trailing space 
-)  repeat i64
-    //x
-    metadata,repeat i8
-chars`a\`
-    // " ++ [27880; 37322]%N ++ runes_of_ascii "
-    , repeat zchar[ //x
-4294967296 ] x_y_z	, @leftPad( '0' /// triple
-)  char[ 42 ] options1, repeat
-o
-    , } root packet float {
-}	packet Packet {uint8x roots
-,
-zchar[ 0123456789 ]
-    msg_type `a\`, @calculatedFrom( """ ++ [233]%N ++ runes_of_ascii "t" ++ [233]%N ++ runes_of_ascii """
-)
-//
-// trailing space 
-repeat Packet {
-repeat int64 T  , repeat zchar[ 1 ]
-falsey`it's` ,
-    match leftPad as f32a {
-    // " ++ [128512]%N ++ runes_of_ascii " emoji
-    ""a\""b""
-:MetaDataX , [ 65535 ]
-    :
-rootA
-    , } , } , @tag(007 ) repeat char[
-4294967296//x
-] Z9_ , string Packet@calculatedFrom(
-""CRC32""  ) `u8 x,` ,} root
-    packet
-    x
-    {
-pack tag//x
-``, // `tick` ""quote"" 'q'
-}
-packet Z9_ { char[] BodyLength
-,
-    zchar @lengthOf( x  )	`" ++ [28040; 24687; 31867; 22411]%N ++ runes_of_ascii "`,
-uint8 float
-    // @lengthOf(
-    ,
-i64 u8x
-    , @lengthOf(
-leftPad
-)
-    //
-    int @lengthOf( lengthOf ) , zchar { zchar[ 0 ] Z9_ ,
-} ,
-float // `tick` ""quote"" 'q'
-`crlf
-line`
-, repeat Z9_ {  repeat options1 , i32 As
-,string stringy @lengthOf(
-leftPad
-// a // b
-// a // b
-)`" ++ [28040; 24687; 31867; 22411]%N ++ runes_of_ascii "` , } , char[10 ] x , int ,} // c")).
-Eval vm_compute in ("<<<M4238>>>" ++ check (runes_of_ascii "packet	_x
-	{ repeat
-
-o
-int
-
-, 
-match
-	int
-as Logon
-{""packet""
-    :
-        // a // b
-	  // packet A { u8 x, }
-
-  string_
-
-}
-
-,
-	@leftPad ( 
-'0' )	zchar[  1
-] asx
-,
-
-    } 	 // @lengthOf(
-	packet
-    leftPad{
-}root packet	i8i8{
-
-@calculatedFrom(
-	""it's""	)_x
-len 	 // " ++ [27880; 37322]%N ++ runes_of_ascii "
-		`crlf
-line`,
-
-    }
-root  packet
-
-    rootA	{char[] rootA  @lengthOf(
-leftPad	)
-	`u8 x,`,
-match
-
-    falsey
-
-    as calculatedFrom { 42 : 
-Foo
-
-    }
-
-,
-repeat Z9_ {
-    uint16
-
-    _x	// " ++ [128512]%N ++ runes_of_ascii " emoji
-	`doc`
-    ,zchar[  // `tick` ""quote"" 'q'
-		42	// " ++ [128512]%N ++ runes_of_ascii " emoji
-  ]
-    u8x
-
-    , repeat
-    zchar[ 
-// @lengthOf(
-  	// c
-
-42
-    /// triple
-	  // " ++ [27880; 37322]%N ++ runes_of_ascii "
-] Z9_
-	`// not a comment` , }	// trailing space 
-	,
-
-    string  //
-T  ,
-	u8x  i8i8
-	,
-	@calculatedFrom(""CRC32""  ) u64 zchar
-    ,
-    //
-// " ++ [128512]%N ++ runes_of_ascii " emoji
-	}packet
-	Packet {
-repeat  Z9_	int ,
-	int16
-asx
-
-    `// not a comment`
-    , @lengthOf(options1
-)  repeat
-
-int8
-
-As
-
-    `" ++ [233]%N ++ runes_of_ascii "` 	 // @lengthOf(
-  ,
-@leftPad(
-
-'\x00'
-        // " ++ [27880; 37322]%N ++ runes_of_ascii "
-
-//	t
-  	)
-	o
-    {
-repeat 
-	//
-	rootA
-	`crlf
-line` 
-    //x
-  ,
-	Packet ,
-} , @calculatedFrom(
-	""`tick`""
-	    //
-)
-@lengthOf(	T
-
-)
-
-    //	t
-    repeatCount
-_x
-
-, _x
-
-    {	i16	x_y_z@lengthOf(
-a1)
-`
-` 
-,
-    } 
-    // packet A { u8 x, }
-      //
-,
-	}")).
-Eval vm_compute in ("<<<M275>>>" ++ check (runes_of_ascii "options { u =""a\""b""
-//	t
-//
-;
-    Z9_ =""// no comment"" ; tag
-    // " ++ [27880; 37322]%N ++ runes_of_ascii "
-    =7 } root packet
-    // trailing space 
-    As { }
-packet Header { @lengthOf(
-    Foo )  rootA
-@calculatedFrom( ""\" ++ [233]%N ++ runes_of_ascii """ ) , @calculatedFrom( ""CRC32""// a // b
-)
-    float64 crc
-,  repeat char[ // packet A { u8 x, }
-007
-] Logon , //
-@tag( 7
-    )
-//
-// c
-@calculatedFrom( ""{,}"" ) @lengthOf( stringy
-) match //	t
-A as
-// " ++ [128512]%N ++ runes_of_ascii " emoji
-// `tick` ""quote"" 'q'
-f32a {
-    // `tick` ""quote"" 'q'
-    [""a\\""
-,	1 , ""CRC32"" , 007 ,	""a	b"" , ""\" ++ [233]%N ++ runes_of_ascii """ ] :trueish, 4294967296
-    :
-// c
-//x
-u8x ,//
-}  ,
-@tag(
-255 ) @lengthOf( u8x
-    )
-@calculatedFrom( ""x y""
-    ) pack { uint16 uint8x
-    ,
-    }
-, match
-leftPad as
-asx {""{,}"" : T 007
-    //	t
-    : // @lengthOf(
-_x
-    1  : options1
-,
-    [ 42	,007]// a // b
-:calculatedFrom
-, """ ++ [233]%N ++ runes_of_ascii "t" ++ [233]%N ++ runes_of_ascii """ :
-    lengthOf } ,
-    u8x {int64 charz
-`line1
-line2`,
-} , repeat
-    //x
-    Header BodyLength `
-`  ,
-@rightPad  ( // `tick` ""quote"" 'q'
-'\x00' ) @lengthOf( tag )
-    match o // trailing space 
-as
-    uint8x {
-[ 255 ] :
-_x ,1 :
-    matchKey ,
-// " ++ [128512]%N ++ runes_of_ascii " emoji
-//x
-65535
-:
-// c
-// @lengthOf(
-tag
-,  0123456789: zchar,
-""a\\"" :metadata
-    ,
-    }	, }
-")).
-Eval vm_compute in ("<<<M571>>>" ++ check (runes_of_ascii "root
-    packet
-BodyLength // `tick` ""quote"" 'q'
-{x_y_z
-@calculatedFrom(""" ++ [233]%N ++ runes_of_ascii "t" ++ [233]%N ++ runes_of_ascii """)
-    //x
-    , //	t
-@lengthOf( A
-    )int8	options1`u8 x,`
-, @rightPad ( )
-// " ++ [128512]%N ++ runes_of_ascii " emoji
-// " ++ [27880; 37322]%N ++ runes_of_ascii "
-repeat
-zchar[1 ]// " ++ [128512]%N ++ runes_of_ascii " emoji
-asx//	t
-`
-` ,
-i8i8@lengthOf( asx) `it's` ,
-uint64 i8i8
-    , int32
-// trailing space 
-// @lengthOf(
-Packet @lengthOf(  x_y_z  )
-,	@tag(1 )	repeat uint8 len
-    , char[] matchKey ,char[
-7  ] chars
-    @calculatedFrom( """ ++ [233]%N ++ runes_of_ascii "t" ++ [233]%N ++ runes_of_ascii """
-), } packet i8i8 { match body
-as	repeatCount { [ ""a\\"",""// no comment"",0123456789 , ""x y"",""// no comment"", 7 , 1  ]:
-Foo 007 : T,[
-""a\""b"" , 0] : BodyLength ,
-    } ,	repeat Z9_ {
-charz @calculatedFrom(""\n"" )
-`tab	here` , // `tick` ""quote"" 'q'
-repeatCount Pad `tab	here`, i32 asx @lengthOf(
-i64_ )
-    ,  }
-    , } packet uint8x
-    {
-@calculatedFrom(""" ++ [233]%N ++ runes_of_ascii "t" ++ [233]%N ++ runes_of_ascii """ )
-zchar[ 0 ] metadata
-, } options{ msg_type= true string_  = 007 a1 = ""// no comment"" ; } MetaData packetx{ BodyLength
-body
-    `line1
-line2`/// triple
-, float tag,x_y_z string_`crlf
-line` , BodyLength f32a`" ++ [28040; 24687; 31867; 22411]%N ++ runes_of_ascii "`
-// a // b
-// packet A { u8 x, }
-,
-    char[ 255
-]  stringy , }
-")).
-Eval vm_compute in ("<<<M3484>>>" ++ check (runes_of_ascii "// top
-packet // c0
-A // c1
-{ // c2a
-  // c2b
-u8 a // c4
-, // c5
-}
-    // c6
-packet // c7
-B
-    // c8
-{ u16
-    // c10
-b // c11
-, }
-    // c13
-packet // c14a
-  // c14b
-C { // c16
-u32 // c17a
-  // c17b
-c // c18
-, // c19
-} // c20a
+Eval vm_compute in ("<<<M1466>>>" ++ check (runes_of_ascii "// top
+options // c0
+{ // c1
+StringPrefixLenType =
+    // c3
+u8 // c4
+; // c5a
+  // c5b
+ArrayPrefixLenType // c6a
+  // c6b
+= // c7a
+  // c7b
+u32 ;
+    // c9
+FixedStringPadFromLeft =
+    // c11
+false // c12a
+  // c12b
+; // c13
+FixedStringPadChar = // c15
+' ' // c16a
+  // c16b
+; }
+    // c18
+packet Party // c20a
   // c20b
-root packet
+{ repeat
     // c22
-M // c23a
+i16 // c23a
   // c23b
-{
+Qty
     // c24
-u16 Kc // c26a
-  // c26b
-, // c27a
-  // c27b
-u16
-    // c28
-Kb // c29
 ,
-    // c30
-u16 // c31a
-  // c31b
-Ka // c32a
-  // c32b
-, // c33a
-  // c33b
-match Kc // c35a
-  // c35b
-as
-    // c36
-X // c37
-{ 9 // c39
-: // c40
-A // c41
-, // c42
-10 // c43
-: // c44
-B // c45
+    // c25
+repeat // c26
+string Tail // c28a
+  // c28b
+,
+    // c29
+i8 OrderId , // c32
+i8 msgKind // c34
+,
+    // c35
+} packet // c37a
+  // c37b
+Ack { Party // c40
+, repeat
+    // c42
+InRef20 // c43a
+  // c43b
+{ Party
+    // c45
 , // c46a
   // c46b
-} // c47a
+int8 // c47a
   // c47b
-, match // c49
-Kb
+tag7 // c48
+, char[
     // c50
-as Y // c52a
-  // c52b
-{ // c53
-2 // c54a
-  // c54b
-: // c55a
-  // c55b
-C ,
-    // c57
-1
-    // c58
-: // c59a
-  // c59b
-A
-    // c60
-,
-    // c61
-}
-    // c62
-,
-    // c63
-match // c64a
-  // c64b
-Ka // c65
-as // c66a
-  // c66b
-Z { 1 // c69
-: // c70
-B , // c72
-} // c73
-, // c74a
-  // c74b
-A // c75a
-  // c75b
-, // c76
-B // c77a
-  // c77b
-, // c78
-C
-    // c79
-, }
-    // c81
-")).
-Eval vm_compute in ("<<<M1281>>>" ++ check (runes_of_ascii "MetaData Packet  { string leftPad
-,metadata float
-    // `tick` ""quote"" 'q'
-    `` , char[ //x
-1] u `
-`
-    , matchKey
-u128
-`" ++ [28040; 24687; 31867; 22411]%N ++ runes_of_ascii "` , matchKey
-msg_type
-    `say ""hi""` ,
-}
-root
-    packet string_{ @tag(
-1 )
-    //x
-    char[]
-    lengthOf`// not a comment` , @calculatedFrom( ""{,}""//
-)
-    // " ++ [128512]%N ++ runes_of_ascii " emoji
-    match string_ as T { 7 // a // b
-: leftPad, },
-    Logon @lengthOf(
-    stringy ) `crlf
-line` // c
-,@lengthOf( body
-) @tag( 255	)
-//
-// trailing space 
-repeat f32a	, uint32 f32a// c
-@lengthOf( asx
-)
-,
-    repeat char Packet , @leftPad (	' ' ) f32 leftPad ,  @tag(7
-) repeat Header , } packet x_y_z{ match /// triple
-u8x as leftPad
-    {
-4294967296 :crc
-    , ""\" ++ [233]%N ++ runes_of_ascii """ :
-matchKey , } ,
-    // " ++ [128512]%N ++ runes_of_ascii " emoji
-    @calculatedFrom(
-// `tick` ""quote"" 'q'
-// " ++ [27880; 37322]%N ++ runes_of_ascii "
-""1"" ) @tag(	00 )	@rightPad ( //
-' ' )
-BodyLength @lengthOf( uint8x ) ,
-Header `line1
-line2` ,	@calculatedFrom(
-    """" ) repeat	int32 As
-, } packet uint8x {
-i16 Header
-@lengthOf(calculatedFrom )
-, }
-")).
-Eval vm_compute in ("<<<M3512>>>" ++ check (runes_of_ascii "options {
-LittleEndian	=
-
-true
-
-;
-	StringPrefixLenType =
-
-u32
-
-; FixedStringPadChar ='0'
-;
-	}packet
-Logout {
-repeat
-    InMsgkind49
-    {
-	u8
-pad0
-,
-}, repeat  char[
-5
-
-    ] seqNo	,
-    repeat
-u8
-    price
-,
-}packet
-
-    Party { zchar[
-	7	] Qty  ,
-	}
-packet
-	Logon { repeat
-InRef10
-    {	string
-price ,
-char[]	sym
-
-, repeat	Logout,
-
-    }	,
-
-    repeat 
-char[
-    3 
-]count
-, repeat	Party ,  char[] tag7,
-    @rightPad ( '0'
-)  char[2 
+5 ]
+    // c52
+OrderId // c53a
+  // c53b
+, // c54
+zchar[ // c55
+7 // c56a
+  // c56b
 ]
-	clOrdID
-    ,
-	} packet Order
-{	InTail13	{
-
-    Party ,  }
+    // c57
+Tail // c58
+, // c59a
+  // c59b
+char[]
+    // c60
+count // c61a
+  // c61b
 ,
-	repeat
-	char[
-4 ]count ,
-
-}root  packet
-Cancel 
+    // c62
+InPrice45 // c63
 {
-Logout ,	@leftPad	(  '0')
+    // c64
+Party ,
+    // c66
+char[ // c67
+1 // c68
+] // c69
+Px // c70
+, } ,
+    // c73
+} , // c75
+char[
+    // c76
+12 ] price // c79a
+  // c79b
+, // c80a
+  // c80b
+int8 sym // c82a
+  // c82b
+,
+    // c83
+} packet
+    // c85
+Reject { // c87a
+  // c87b
+repeat // c88
+InPrice47 // c89
+{ Party // c91a
+  // c91b
+,
+    // c92
+} // c93a
+  // c93b
+, zchar[ // c95a
+  // c95b
+4
+    // c96
+]
+    // c97
+x
+    // c98
+, repeat Ack , zchar[ 2 // c104
+]
+    // c105
+Ref , repeat // c108a
+  // c108b
+Party
+    // c109
+, // c110
+} // c111
+packet
+    // c112
+Cancel // c113a
+  // c113b
+{ // c114a
+  // c114b
+Reject // c115
+, // c116
+repeat
+    // c117
+string f1 // c119a
+  // c119b
+, // c120
+uint16 // c121a
+  // c121b
+OrderId
+    // c122
+, // c123
+u8 Acct // c125a
+  // c125b
+, int8 // c127a
+  // c127b
+msgKind , // c129a
+  // c129b
+} root packet // c132a
+  // c132b
+Fill { u8 // c135a
+  // c135b
+count ,
+    // c137
+char[] tag7 // c139
+,
+    // c140
+zchar[ // c141a
+  // c141b
+7 // c142a
+  // c142b
+] // c143a
+  // c143b
+Acct
+    // c144
+, // c145
+u32 // c146
+OrderId
+    // c147
+, // c148
+u32
+    // c149
+Note // c150
+@lengthOf( // c151a
+  // c151b
+Body
+    // c152
+) // c153a
+  // c153b
+, // c154
+match // c155a
+  // c155b
+OrderId
+    // c156
+as
+    // c157
+Body // c158a
+  // c158b
+{ // c159a
+  // c159b
+106
+    // c160
+: // c161a
+  // c161b
+Cancel // c162
+, // c163
+196 : // c165
+Reject // c166
+,
+    // c167
+74 // c168a
+  // c168b
+:
+    // c169
+Party ,
+    // c171
+75 // c172
+: Ack , // c175a
+  // c175b
+} , // c177a
+  // c177b
+} // c178a
+  // c178b
+")).
+Eval vm_compute in ("<<<M189>>>" ++ check (runes_of_ascii "packet i64_ { match
+    BodyLength as u8x {
+[ 0123456789 ]: leftPad ""{,}"" :	lengthOf	,
+007 :	A, [  ""a\""b"" ] :float , //x
+} , @calculatedFrom( // `tick` ""quote"" 'q'
+""" ++ [233]%N ++ runes_of_ascii "t" ++ [233]%N ++ runes_of_ascii """ )// a // b
+body
+u8x
+    , packetx`say ""hi""`, // @lengthOf(
+zchar[
+    42 ]MetaDataX `line1
+line2`
+    ,
+    f32 // @lengthOf(
+matchKey, roots{
+    // " ++ [27880; 37322]%N ++ runes_of_ascii "
+    u128 @lengthOf( T ) , char[
+// " ++ [128512]%N ++ runes_of_ascii " emoji
+// packet A { u8 x, }
+42
+    ]	x_y_z	@calculatedFrom( """" ) ,repeat float64 stringy// " ++ [128512]%N ++ runes_of_ascii " emoji
+`` ,
+    }
+,u16 // @lengthOf(
+metadata
+    `tab	here` ,@rightPad	( '0'
+    // " ++ [128512]%N ++ runes_of_ascii " emoji
+    )
+@tag( 7 )
+// " ++ [27880; 37322]%N ++ runes_of_ascii "
+// " ++ [27880; 37322]%N ++ runes_of_ascii "
+repeat uint16 // @lengthOf(
+x_y_z `say ""hi""`, repeat
+    roots{ // a // b
+Packet {float{ repeat asx , asx
+Foo
+    , }
+,
+    }	,} ,@tag( 42 )//x
+u `line1
+line2` , // `tick` ""quote"" 'q'
+}  packet int { } options {
+    // `tick` ""quote"" 'q'
+    Logon
+    = ""{,}"" ; } packet	As{// packet A { u8 x, }
+@calculatedFrom( // @lengthOf(
+"""" ) @rightPad ( '\x00'
+// " ++ [128512]%N ++ runes_of_ascii " emoji
+//	t
+) @leftPad (
+'0' ) repeat Logon
+f32a	, @lengthOf(
+// a // b
+// a // b
+rootA ) @tag(42 )
+    @lengthOf(
+// " ++ [128512]%N ++ runes_of_ascii " emoji
+//
+u
+//	t
+// a // b
+)repeat o u8x `u8 x,` , @tag( 7) zchar[
+    //x
+    42] asx @lengthOf(
+    trueish ) , @lengthOf( trueish ) int16
+stringy
+,
+zchar f32a
+    `two words` , string u8x@calculatedFrom( ""\n""
+    )  , _x `
+` , @lengthOf( i8i8  ) i64_@lengthOf(
+    uint8x )
+    , uint32 rootA `it's` , }
+")).
+Eval vm_compute in ("<<<M238>>>" ++ check (runes_of_ascii "
+packet
+    tag{repeat
+    stringy {	repeat
+i32 lengthOf
+, // trailing space 
+string msg_type // " ++ [27880; 37322]%N ++ runes_of_ascii "
+@calculatedFrom( // " ++ [128512]%N ++ runes_of_ascii " emoji
+""// no comment"" ) `" ++ [233]%N ++ runes_of_ascii "` ,
+    zchar
+    { x @calculatedFrom( """ ++ [28040; 24687]%N ++ runes_of_ascii """ )
+    ,repeat u8x len , zchar[ 255 ] i8i8 , } ,
+x @calculatedFrom( ""CRC32"")
+`` ,} , packetx
+//	t
+//	t
+u8x, @calculatedFrom( ""packet"" )
+zchar[  007] body
+@calculatedFrom( ""CRC32"" )
+    , @lengthOf( x_y_z/// triple
+) char[]
+int
+    `" ++ [28040; 24687; 31867; 22411]%N ++ runes_of_ascii "` , zchar[ 42 ]
+Logon@calculatedFrom( ""// no comment""
+    ) ,
+    int8
+f32a , }packet  As { @calculatedFrom(
+""it's""
+)  int64 msg_type	@calculatedFrom( ""a\""b"" )`it's`, i8i8 pack , tag {i64 _x ,match As as f32a { // trailing space 
+007 : _x ,0123456789 : metadata
+    , }
+, }, @lengthOf( body )repeat
+u8
+f32a
+    `` , char[] Pad `line1
+line2` ,
+    @lengthOf(msg_type)  string len , @lengthOf(	a1) @tag(00
+) @rightPad('\x00' ) char[ 65535 ] Header ,// trailing space 
+@calculatedFrom(
+    // a // b
+    ""1""
+) @calculatedFrom(
+""a\\""  )
+    // @lengthOf(
+    @lengthOf( body
+//
+// " ++ [27880; 37322]%N ++ runes_of_ascii "
+)
+    i8
+x_y_z
+, }
+root packet a1 {
+    }
+    packet A{
+}
+    // " ++ [128512]%N ++ runes_of_ascii " emoji
+    packet calculatedFrom {}")).
+Eval vm_compute in ("<<<M1452>>>" ++ check (runes_of_ascii "options {
+    StringPrefixLenType = u32;
+    ArrayPrefixLenType = u8;
+    FixedStringPadFromLeft = false;
+}
+packet Logon {
+    i8 venue,
+    int16 f1,
+    zchar[8] Acct,
+    repeat InNote16 {
+        InQty73 {
+            float32 tag7,
+        },
+        f32 Acct,
+        zchar[5] sym,
+    },
+    uint16 Side2,
+    i32 lastPx,
+}
+packet Fill {
+    repeat InOrderid15 {
+        zchar[8] sym,
+        repeat char[2] OrderId,
+        repeat Logon,
+        InQty82 {
+            char[] Tail,
+            repeat Logon,
+            float64 price,
+            f64 Side2,
+        },
+        char[12] venue,
+        char[4] Px,
+    },
+    @rightPad('0') char[2] venue,
+    InPrice99 {
+        InAcct72 {
+            u8 pad0,
+        },
+        u32 OrderId,
+        Logon,
+    },
+}
+root packet Reject {
+    zchar[9] msgKind,
+    u32 venue,
+    u16 seqNo @lengthOf(Body),
+    match venue as Body {
+        57 : Fill,
+        8 : Logon,
+    },
+    u16 Tail @calculatedFrom(""CR\
+C32""),
+}
+")).
+Eval vm_compute in ("<<<M1662>>>" ++ check (runes_of_ascii "
 
-char[	9 ]  msgKind	,
+  packet 
+	    // `tick` ""quote"" 'q'
+// `tick` ""quote"" 'q'
+		rootA{  @tag(
+3
 
-string
+) 
+zchar[00 ]  // trailing space 
+  x_y_z  `" ++ [28040; 24687; 31867; 22411]%N ++ runes_of_ascii "`
 
-lastPx ,
-    string tag7
+, _x,
+
+// a // b
+		float64 A
+@lengthOf( 	 //
+    	u8x
+
+),
+	u8  rootA
+
+`line1
+line2`
+
+, 
+zchar[
+	7	]// c
+
+stringy  , match
+
+Header as f32a
+{
+
+""\" ++ [233]%N ++ runes_of_ascii """
+	:o ,
+
+[
+	    // `tick` ""quote"" 'q'
+  	4294967296  ,
+7  ,  // c
+  4294967296 ,
+    ""packet""	,	""a	b""
+
+    ,
+    ""CRC32""
+
+    ,  7
+,	""a	b""// trailing space 
+
+]: // packet A { u8 x, }
+		repeatCount
 
     , 
-zchar[ 1 ]OrderId
-,
-repeat
-Party ,	u16
-    sym,  u16
-Acct@lengthOf(	Body ) ,
-match
-	sym 
-as Body
+""a\""b"":Header 
+[  ""a\""b""
+	]
 
-    {
-    [24
+    :crc ,
 
-,	44 ]
-    :Logout
-,
+[
 
-160 :	Order ,91
-	: Logon,
-	43
-: Party ,}, u16
+007
+	, 007  , ""abc""]
 
-Tail
-    @calculatedFrom( ""CRC32"" 
+    : metadata  ,
+
+4294967296
+:
+chars
+
+    ,
+
+} // " ++ [128512]%N ++ runes_of_ascii " emoji
+,	@tag(
+	1
+
+    )
+
+i8 
+matchKey	`a\` ,
+        // @lengthOf(
+// " ++ [128512]%N ++ runes_of_ascii " emoji
+@lengthOf( body
+) tag
+	,  @lengthOf(matchKey
+	)
+	@lengthOf(  o  ) @lengthOf(	pack
 )
+
+repeat
+u{	calculatedFrom @lengthOf( falsey
+), },
+
+}")).
+Eval vm_compute in ("<<<M1761>>>" ++ check (runes_of_ascii "
+
+  packet	options1 {
+	@leftPad(
+
+)
+@calculatedFrom( ""\n"" ) @leftPad
+	(
+' ' // " ++ [27880; 37322]%N ++ runes_of_ascii "
+    ) chars
+
+    T`say ""hi""`// " ++ [27880; 37322]%N ++ runes_of_ascii "
+
+	, 
+  // @lengthOf(
+	repeat 
+zchar
+
+{ 
+metadata  { 
+    // @lengthOf(
+
+  // c
+match
+    A
+
+as  x_y_z
+
+{
+""1"" :
+    // " ++ [128512]%N ++ runes_of_ascii " emoji
+  // c
+  string_ 	 // @lengthOf(
+[""// no comment""
     ,
-	}
+10
+	]
+:Foo
+
+    ""a\\"" :
+Packet[  ""a	b""  ,	65535 
+]:x,
+}
+
+,	}
+    ,
+
+    } 	 // " ++ [128512]%N ++ runes_of_ascii " emoji
+, @rightPad(
+    ) f32
+	msg_type 
+,
+
+    match
+f32a as
+    body{ [
+""`tick`"" 
+,""\n""
+	,""a	b"" ,	""{,}"" 
+,255 ,	""x y""
+
+    ,
+3
+]
+
+:  // @lengthOf(
+
+x ,	""CRC32""	:
+    zchar
+
+    ,	""x y"" : rootA 	 // `tick` ""quote"" 'q'
+    	[ 00
+	,
+    ""it's"",
+4294967296
+    ,
+
+    ""CRC32""
+    ]	:
+    roots 4294967296 : Logon
+
+    },
+	@leftPad (
+'0'
+)
+
+pack
+`crlf
+line`  , }
 
 ")).
-Eval vm_compute in ("<<<M244>>>" ++ check (runes_of_ascii "MetaData falsey { string tag
-`// not a comment` , } packet x
-{ char[]int @lengthOf( u)
-`u8 x,`
-    ,
-@calculatedFrom( ""abc"" ) @leftPad ('0')@tag( 255) repeat T {
-f32a
-`" ++ [233]%N ++ runes_of_ascii "`  ,
-u128 @calculatedFrom( """ ++ [128512]%N ++ runes_of_ascii """ ) // a // b
-,
-    // c
-    repeat
-float { char[] x ,}
-    ,
-},@lengthOf( Header
-)string_ @lengthOf(Logon )//	t
-, body
-Pad `" ++ [28040; 24687; 31867; 22411]%N ++ runes_of_ascii "`,
-}packet matchKey { }
+Eval vm_compute in ("<<<M1547>>>" ++ check (runes_of_ascii "//x
+root packet Z9_ {
+    @calculatedFrom(""a\\"")
+    zchar[1] a1 @lengthOf(Z9_),
+    @tag(0123456789)
+    @lengthOf(Header)
+    @tag(4294967296)
+    uint8 u128,
+    i16 msg_type,
+    tag matchKey,
+    repeat i8 options1 `tab	here`,
+    repeat f32a Z9_,
+    /// triple
     //	t
-    packet options1	{
-    string	a1 @calculatedFrom( ""{,}"" ) ,}	packet x {match a1 as i64_ { 1
-: Packet , ""abc"": crc ,
-    }
-    , int8
-calculatedFrom@lengthOf( i8i8
-    //	t
-    ),
-    @calculatedFrom( """"	)
-@calculatedFrom( """ ++ [128512]%N ++ runes_of_ascii """ ) lengthOf
-`a\`, char[1  ] u8x , zchar[ 007]// packet A { u8 x, }
-metadata  @calculatedFrom(// a // b
-""\n"" ) , @lengthOf(
-len) @rightPad ( ) char[
-    // " ++ [27880; 37322]%N ++ runes_of_ascii "
-    10 // packet A { u8 x, }
-]	Pad , repeat options1 `{ , }`,
-    char[] tag @lengthOf( Packet ),}
-")).
-Eval vm_compute in ("<<<M3990>>>" ++ check (runes_of_ascii "packet o {
-    repeat char[65535] rootA,
+    match tag as Foo {
+        42 : Logon,
+        [4294967296] : Pad,
+        3 : a1,
+        [007, 1] : a1,
+    },// packet A { u8 x, }
+    repeat zchar {
+        repeat u8 options1,
+        leftPad {
+            msg_type,
+        },
+        leftPad @lengthOf(string_) `a\`,
+    },
+    zchar charz,
+    string tag @calculatedFrom(""{,}""),// " ++ [27880; 37322]%N ++ runes_of_ascii "
+}
+
+packet u128 {
+    @tag(4294967296)
+    @tag(42)
+    f32a @lengthOf(float) `" ++ [233]%N ++ runes_of_ascii "`,
+}")).
+Eval vm_compute in ("<<<M1976>>>" ++ check (runes_of_ascii "options {
+    Foo = ""it's""
+    lengthOf = int8
+    falsey = 7;
+    a1 = false;
+}
+
+MetaData repeatCount {
+    T repeatCount,
+    u8x msg_type `// not a comment`,
+    repeatCount T,
 }
 
 packet repeatCount {
-    @tag(10)
-    @lengthOf(_x)
-    repeat int64 f32a `" ++ [233]%N ++ runes_of_ascii "`,
-    @leftPad('0')
-    @leftPad(' ')
-    @tag(3)
-    // trailing space 
-    o `doc`,
-    // a // b
-    @calculatedFrom("""")
-    string o,
-    @lengthOf(msg_type)
-    match A as T {
-        [
-            ""packet"", ""a\\"", 1, 10, ""x y"",
-            3
-        ] : leftPad,
-        ""packet"" : calculatedFrom,
-        //	t
-        [255] : o,
-        42 : int,
-    },
-    Z9_ float `a\`,
-    char[] u,
-    @lengthOf(i64_)
-    string A @lengthOf(int) `it's`,
-    @rightPad('0')
-    roots {
-        pack @lengthOf(As) `crlf
-                line`,// c
-        zchar[00] zchar @lengthOf(u8x),
-    },
-    @tag(0)
-    @rightPad()
-    @calculatedFrom(""" ++ [128512]%N ++ runes_of_ascii """)
-    f32a lengthOf `{ , }`,
-}
-// `tick` ""quote"" 'q'")).
-Eval vm_compute in ("<<<M1400>>>" ++ check (runes_of_ascii "options
-    //	t
-    {
-    As = false } //	t
-packet falsey { @lengthOf(float// packet A { u8 x, }
-) @calculatedFrom( ""\n"" ) u32 As , match leftPad
-as repeatCount {
-    0 :  Z9_ , 1
-: repeatCount , [// trailing space 
-65535// c
-]:
-Pad	00
-    :
-    packetx ""a\\""
-:
-packetx,00 :crc , } ,
-repeat Packet
-    , repeat float /// triple
-{ u128
-    @calculatedFrom( """ ++ [28040; 24687]%N ++ runes_of_ascii """
-    ) `say ""hi""` , u64	Foo `say ""hi""` ,  } , @leftPad(
-'\x00'
-)	@tag(
-1 )@calculatedFrom(  ""`tick`""
-    ) f64 lengthOf
-, @rightPad(
-'0' ) @leftPad (
-) @lengthOf( f32a)repeat i64_ x_y_z, @rightPad ( '\x00'
-)o@calculatedFrom( """"  ) `a\`	,
-// a // b
-//x
-asx
-    { repeat T
-chars
-`` ,repeat char[ 0 ]
-string_ ,  } , repeat
-char repeatCount `u8 x,` , zchar[7 ]
-T@calculatedFrom(
-// packet A { u8 x, }
-//x
-""a\\""
-)  , }
-")).
-Eval vm_compute in ("<<<M633>>>" ++ check (runes_of_ascii "packet u{ uint64
-    u8x , @leftPad (
-'0' )u16
-uint8x@lengthOf( T
-    ), @lengthOf(
-// `tick` ""quote"" 'q'
-// `tick` ""quote"" 'q'
-lengthOf) @lengthOf( msg_type)u16
-tag @calculatedFrom(""a\""b""
-    )
-    // a // b
-    `crlf
-line` ,
-} packet As {@calculatedFrom( ""a\\"")u128 { int16
-string_
-    // c
-    @lengthOf( Header ) , repeat i64_ `{ , }`,
-    },/// triple
-} root packet
-    roots { @calculatedFrom( //	t
-""`tick`"" ) i32 Header `" ++ [233]%N ++ runes_of_ascii "` ,int8 T ,  @rightPad
-( ' ' ) u32
-    charz`doc`, char[ 65535 ]f32a
-    , metadata,
-}  MetaData T { u8x roots
-`it's` ,
-options1 MetaDataX , int32 f32a , } options { // trailing space 
-f32a = '0' Pad =
-//x
-// trailing space 
-0123456789 ;
-    repeatCount
-    // a // b
-    = char[] x_y_z
-//x
-// " ++ [27880; 37322]%N ++ runes_of_ascii "
-=
-'\x00'
-}
-")).
-Eval vm_compute in ("<<<M137>>>" ++ check (runes_of_ascii "root packet x_y_z{
-    }packet calculatedFrom {char[] Foo @lengthOf( Pad
-    ) ,} root packet // @lengthOf(
-u128 // @lengthOf(
-{} packet u8x { @lengthOf(asx ) match charz
-    as msg_type { // @lengthOf(
-[ 0123456789
-    ] : i64_	,
-    [ 0]
-: a1  }
-,f32 Pad , //x
-match /// triple
-falsey as BodyLength
-    { """ ++ [233]%N ++ runes_of_ascii "t" ++ [233]%N ++ runes_of_ascii """
-:// trailing space 
-charz 10 :
-    roots ,
-10
-: x_y_z// " ++ [27880; 37322]%N ++ runes_of_ascii "
-,
-    ""`tick`"" :_x ,""// no comment""
-: chars [
-    10,
-    1
-]:	Foo ,	}	, repeat u64	u8x
-    `doc`
-,
-    @lengthOf(
-body) uint64 options1  `` ,
-@calculatedFrom(
-""a\""b"")
-    // trailing space 
-    match  Packet as x_y_z{[ 007 ]
-    // a // b
-    :
-tag  ,[ ""a\""b"" ] : rootA , //	t
-"""" : x_y_z // " ++ [27880; 37322]%N ++ runes_of_ascii "
-65535 :
-asx  ,	""" ++ [233]%N ++ runes_of_ascii "t" ++ [233]%N ++ runes_of_ascii """ : o  , } , }
-")).
-Eval vm_compute in ("<<<M4212>>>" ++ check (runes_of_ascii "// " ++ [128512]%N ++ runes_of_ascii " emoji
-packet u128 {
-    repeat MetaDataX,
-    int64 leftPad,//	t
-    @lengthOf(matchKey)
-    //
-    @calculatedFrom(""" ++ [28040; 24687]%N ++ runes_of_ascii """)
-    match T as Header {
-        255 : repeatCount,
-        ""it's"" : roots,
-    },
-}
-
-//
-//	t
-packet MetaDataX {
-    repeat chars asx `tab	here`,
-    repeat o {
-        repeat _x {
-            repeat uint32 charz `u8 x,`,
-            zchar[42] leftPad @calculatedFrom(""" ++ [28040; 24687]%N ++ runes_of_ascii """) `doc`,/// triple
-        },
-    },
-    int16 u @lengthOf(f32a) `tab	here`,
-    match f32a as i64_ {
-        00 : len,
-    },
-}
-
-MetaData pack {
-    f32a packetx,
-    zchar[10] Header `tab	here`,
-    zchar[007] string_ `crlf
-    line`,
-    char[] matchKey,
-    float64 float,
-}")).
-Eval vm_compute in ("<<<M140>>>" ++ check (runes_of_ascii "options  { }
-MetaData metadata  {	float32 u128 `" ++ [28040; 24687; 31867; 22411]%N ++ runes_of_ascii "` ,
-}packet
-roots {
-i64 uint8x``
-// `tick` ""quote"" 'q'
-// `tick` ""quote"" 'q'
-, @tag(  3) // packet A { u8 x, }
-@tag(
-    0123456789	) stringy @lengthOf(Header )`u8 x,` , f64 u //x
-`tab	here`,  match  u8x as u8x
-    // `tick` ""quote"" 'q'
-    { 10 : string_ , }, zchar[
-7 ]  u@calculatedFrom( // a // b
-""packet"" ) ,  @leftPad
-    ( ) repeat asx _x
-    ,zchar[ // `tick` ""quote"" 'q'
-7] uint8x
-,body
-{repeat zchar[
-3]
-    As , string Header
-,
-    char[] u, }
-, repeat Logon{
-repeat zchar[65535 ] packetx `// not a comment` , }
-, } // packet A { u8 x, }
-MetaData
-msg_type{
-f64
-    crc	`{ , }`
-, }
-")).
-Eval vm_compute in ("<<<M4070>>>" ++ check (runes_of_ascii "MetaData o {
-    uint8 asx,// " ++ [27880; 37322]%N ++ runes_of_ascii "
-}
-
-MetaData _x {
-    A Z9_ `a\`,
-}
-
-packet string_ {
-    repeat x_y_z f32a,
-    charz {
-        msg_type @lengthOf(A),
-    },
-    uint16 stringy,
-    @calculatedFrom(""" ++ [233]%N ++ runes_of_ascii "t" ++ [233]%N ++ runes_of_ascii """)
-    leftPad msg_type,
-    @tag(7)
-    @calculatedFrom(""" ++ [28040; 24687]%N ++ runes_of_ascii """)
-    i64_,
-    repeat trueish x `doc`,
-    uint16 metadata @lengthOf(i8i8) `tab	here`,
-    repeat tag Logon,
-    repeat repeatCount metadata ``,// trailing space 
-}
-
-packet roots {
-    repeat x_y_z {
-        // `tick` ""quote"" 'q'
-        char[4294967296] stringy `line1
-        line2`,
-        uint16 body,
-    },
-    @leftPad(' ')
-    MetaDataX stringy,
-}")).
-Eval vm_compute in ("<<<M296>>>" ++ check (runes_of_ascii "root
-packet i64_ // " ++ [27880; 37322]%N ++ runes_of_ascii "
-{match // " ++ [128512]%N ++ runes_of_ascii " emoji
-rootA as stringy {
-    10 : int , 7 : chars
-, 7: int 4294967296: // @lengthOf(
-Foo , [// trailing space 
-7 , """ ++ [28040; 24687]%N ++ runes_of_ascii """  ]  :// c
-BodyLength [ 0 ,""1""
-    , 00 , 7
-    ,""it's"" ] :
-As ,
-    } ,
-repeat char[] a1`u8 x,`, @leftPad
-// packet A { u8 x, }
-// " ++ [27880; 37322]%N ++ runes_of_ascii "
-(
-    // trailing space 
-    ' '	) packetx , @calculatedFrom(  ""\n"")  repeat matchKey
-    { char[7
-    // `tick` ""quote"" 'q'
-    ] falsey
-    `crlf
-line` , } ,
-// c
-/// triple
-@lengthOf( f32a ) uint8
-Z9_
-,
-// a // b
-//	t
-falsey ,	repeat leftPad ,  @tag(1 ) u8x@lengthOf(  i64_
-) , }
-")).
-Eval vm_compute in ("<<<M1266>>>" ++ check (runes_of_ascii "packet matchKey { @rightPad ( ' ' )
-    @tag( 65535 ) _x @lengthOf( options1 )
-`" ++ [28040; 24687; 31867; 22411]%N ++ runes_of_ascii "`,
-@lengthOf( o ) tag /// triple
-Logon ,
-}
-packet
-pack // @lengthOf(
-{ @tag(
-7 ) zchar[ 0
-] u @calculatedFrom( ""\n"" )
-    `a\` ,repeat stringy ,repeat i8i8 a1 ,char[ 0 ] pack @calculatedFrom(
-""\n"" )`line1
-line2` , }packet u128{
-@lengthOf(
-metadata)
-int8 Foo
-`
-` , @leftPad( '\x00') zchar , len // c
-Header ,  repeat
-    chars
-``,
-f64 trueish@calculatedFrom( ""`tick`"")
-    // " ++ [27880; 37322]%N ++ runes_of_ascii "
-    , @lengthOf(
-matchKey// @lengthOf(
-) uint32 i8i8
-, asx int `a\`, }
-")).
-Eval vm_compute in ("<<<M1147>>>" ++ check (runes_of_ascii "root
-    // trailing space 
-    packet
-    a1 { int16
-u8x , match
-    pack as i8i8{ ""packet""
-    :
-i64_ [ 1,
-    //
-    7 // @lengthOf(
-,007	, 0123456789 , """ ++ [233]%N ++ runes_of_ascii "t" ++ [233]%N ++ runes_of_ascii """
-    , 0 ] :
-chars
-    , [
-    7 ,
-""a\\"" , ""a\""b"", 007  , 0	,""// no comment"" ] : A	,}  ,
-int64 metadata , @lengthOf(roots )len ,repeat
-    //
-    As// trailing space 
-`it's`  , //	t
-repeat calculatedFrom
-    {repeat
-//x
-// " ++ [27880; 37322]%N ++ runes_of_ascii "
-options1 stringy , calculatedFrom matchKey
-    `" ++ [28040; 24687; 31867; 22411]%N ++ runes_of_ascii "` , float32
-options1 @lengthOf( // trailing space 
-float
-)
-    , } , } 	 ")).
-Eval vm_compute in ("<<<M4470>>>" ++ check (runes_of_ascii "
-
-  MetaData
-
-    asx
-
-{
-//x
-}
-
-packet falsey
-	{
-@tag(	00
-    )
-
-char[1]
-options1`crlf
-line`	,	// `tick` ""quote"" 'q'
-		@tag(	3
-
-    )asx {
-
-Header
-    @lengthOf(
-    pack)
-`say ""hi""`  ,
-
-match
-
-    Pad
-as calculatedFrom
-        // " ++ [27880; 37322]%N ++ runes_of_ascii "
-	{
-
-""{,}""
-    :
-
-    string_
-
-    [
-
-""x y"" ,
-    007]
-	:msg_type ,
-""abc""	: string_
-
-,[ 
-
-    // c
-	  /// triple
-	42
-
-,  1
-    , ""// no comment"" 
-,	""\" ++ [233]%N ++ runes_of_ascii """ ,	""`tick`""
-,
-""`tick`""
-,	""a\""b""] 
-: 
-Packet
-	,
-255:
-options1  } 
-,
-
-    } ,
-}
-")).
-Eval vm_compute in ("<<<M459>>>" ++ check (runes_of_ascii "packet o{
-    @rightPad(  '0'
-    ) @tag(00 ) uint16 i64_ `two words` , //	t
-As `{ , }` , }//	t
-packet len {
-lengthOf`crlf
-line` , metadata ,i32
-    float ,int16 msg_type `" ++ [233]%N ++ runes_of_ascii "` , zchar[ 007 ]
-float `line1
-line2` ,  char[] // c
-falsey ,
-    @rightPad/// triple
-(' '
-) roots stringy`" ++ [233]%N ++ runes_of_ascii "`
-,	@calculatedFrom(
-    // trailing space 
-    """") zchar[ 42 ] trueish , @tag(
-1) f32
-    // @lengthOf(
-    x ,} options
-{ A =
-    ""abc""
-// packet A { u8 x, }
-// " ++ [27880; 37322]%N ++ runes_of_ascii "
-;
-    Packet =42
-}")).
-Eval vm_compute in ("<<<M427>>>" ++ check (runes_of_ascii "packet asx{
-    //	t
-    repeat
-float64
-    uint8x //
-,}	packet u128 // packet A { u8 x, }
-{ BodyLength , match
-BodyLength as
-    metadata {0123456789 : calculatedFrom [
-10, ""packet""
-,
-// @lengthOf(
-// @lengthOf(
-""// no comment"" , ""CRC32"" ,
-    // `tick` ""quote"" 'q'
-    """ ++ [128512]%N ++ runes_of_ascii """ , 10,
-""\n"" ] : BodyLength , 42 // " ++ [27880; 37322]%N ++ runes_of_ascii "
-:crc
-,
-""packet""
-// `tick` ""quote"" 'q'
-// " ++ [27880; 37322]%N ++ runes_of_ascii "
-: x_y_z
-// a // b
-// " ++ [128512]%N ++ runes_of_ascii " emoji
-,	[ 3 ,  ""x y""// a // b
-,""packet"" , 3 ,
-    ""1"" ]: asx , }
-,}
-")).
-Eval vm_compute in ("<<<M4440>>>" ++ check (runes_of_ascii "  root
-	packet
-
-    asx
-	{
-    @calculatedFrom( ""CRC32"" 
-        // " ++ [27880; 37322]%N ++ runes_of_ascii "
-    // packet A { u8 x, }
-		)
-
-match 
-chars  as trueish{ """"
-
-:
-
-T
-,42
-	:
-f32a ,
-""{,}"" :
-calculatedFrom
-    255 :  // c
-  	A
-,}
-	,	}root
-packet
-matchKey 
-{
-u16	len
-
-@lengthOf( metadata
-    )  `// not a comment` ,}  options {
-Z9_
-
-    =""it's""
-packetx
-	= 
-""" ++ [28040; 24687]%N ++ runes_of_ascii """ ;
-    falsey 
-// a // b
-    	// c
-=	//
-	char[  0]  ;
-MetaDataX
-
-= ""a\\""
-A =
-    true
-
-;
-    }")).
-Eval vm_compute in ("<<<M467>>>" ++ check (runes_of_ascii "root/// triple
-packet//	t
-options1 { float64 u128`" ++ [28040; 24687; 31867; 22411]%N ++ runes_of_ascii "`// a // b
-,	@tag(  0 ) //	t
-match int as
-    float { 4294967296 //
-:	metadata, ""a\\"" : x// packet A { u8 x, }
-, 3
-: u
-    // packet A { u8 x, }
-    ,
-// c
-// " ++ [128512]%N ++ runes_of_ascii " emoji
-0 :falsey } ,
-    } options
-// @lengthOf(
-//x
-{
-    As
-// " ++ [128512]%N ++ runes_of_ascii " emoji
-//
-=
-// a // b
-// `tick` ""quote"" 'q'
-float64 ;
-//	t
-//	t
-Logon	=""// no comment"" ; float = char[255 ] string_ =
-007;  u = '\x00' }
-")).
-Eval vm_compute in ("<<<M3794>>>" ++ check (runes_of_ascii "packet len {
-    repeat crc,
-    zchar[7] roots `" ++ [233]%N ++ runes_of_ascii "`,
-    u {
-        string_ x_y_z,
-    },
-}
-
-root packet len {
-    falsey `a\`,
-    @rightPad(' ')
-    @rightPad()
-    // packet A { u8 x, }
-    // `tick` ""quote"" 'q'
     @tag(007)
-    repeat float {
-        msg_type `" ++ [28040; 24687; 31867; 22411]%N ++ runes_of_ascii "`,
-        int8 i8i8 `say ""hi""`,
-        match u128 as crc {
-            007 : tag,
+    i64_ As,
+}
+
+root packet packetx {
+    string T @calculatedFrom(""{,}""),
+    repeat zchar[4294967296] x,
+    @tag(42)
+    @lengthOf(lengthOf)
+    /// triple
+    @calculatedFrom(""`tick`"")
+    repeat u16 u128 `say ""hi""`,// trailing space 
+    @rightPad()
+    @tag(255)
+    repeat uint8x Logon,
+    repeat zchar[007] Logon `a\`,
+    @rightPad('0')
+    // @lengthOf(
+    string falsey,
+}")).
+Eval vm_compute in ("<<<M1639>>>" ++ check (runes_of_ascii "packet BodyLength {
+    @rightPad()
+    i32 packetx @lengthOf(leftPad),
+    @lengthOf(MetaDataX)
+    leftPad,
+    _x {
+        match zchar as zchar {
+            [""a\\""] : crc,
+            """ ++ [28040; 24687]%N ++ runes_of_ascii """ : Foo,
+            1 : trueish,
+            42 : rootA,
+            [4294967296] : float,
+            // " ++ [128512]%N ++ runes_of_ascii " emoji
+            ""a\\"" : Foo,
         },
-        char[] As `it's`,
+        repeat float leftPad,
+        uint8x i8i8,
+        char[255] As,
     },
+    char[4294967296] uint8x `u8 x,`,
+    @leftPad()
+    float32 body `two words`,
 }")).
-Eval vm_compute in ("<<<M986>>>" ++ check (runes_of_ascii "//
-packet asx { // c
-match rootA
-    as
-u8x
+Eval vm_compute in ("<<<M1997>>>" ++ check (runes_of_ascii "
+MetaData a1
+{ u128 	 // @lengthOf(
+	As	,
+char[ 
+4294967296 ] 
+lengthOf ,
+    uint64  msg_type
+
+    ,
+
+    x_y_z
+
+f32a	,
+
+    float32 o // " ++ [27880; 37322]%N ++ runes_of_ascii "
+, }options 
+
+    // " ++ [27880; 37322]%N ++ runes_of_ascii "
+
+	// " ++ [128512]%N ++ runes_of_ascii " emoji
     {
-0123456789 :  As, } , @lengthOf(zchar ) i32 Z9_
-    @calculatedFrom(
-""`tick`""// packet A { u8 x, }
-)	, repeat
-string_ //x
-{  repeat zchar[00] Logon `a\`, u16 packetx `` , } , _x ,repeat
-string
-    msg_type ,
-u64 chars @lengthOf( chars)
-    , asx falsey
-    `tab	here` /// triple
-,i32 u,
-//
-// trailing space 
-} MetaData charz {
-}")).
-Eval vm_compute in ("<<<M4383>>>" ++ check (runes_of_ascii "packet Logon {
-    // c2
-    string user,// c5a
-    // c5b
-}
-
-// c6
-root packet Frame {
-    // c10
-    u8 K,// c13
-    match K as Body {
-        1 : Logon,
-        // c22a
-        // c22b
-        2 : Logout,
-    },
-    // c28
-    Tail,
-}
-
-packet Logout {
-    // c34
-    u16 reason,// c37
-}// c38a
-
-// c38b
-packet Tail {
-    u32 crc,// c44a
-    // c44b
-}// c45a
-// c45b")).
-Eval vm_compute in ("<<<M806>>>" ++ check (runes_of_ascii "  MetaData  As/// triple
-{
-    zchar[ 255 ] repeatCount ,u32 lengthOf`u8 x,`
-// " ++ [27880; 37322]%N ++ runes_of_ascii "
-// c
-, o crc
-    , a1	u ,BodyLength matchKey ,
-char[ 00
-//	t
-// " ++ [128512]%N ++ runes_of_ascii " emoji
-]options1
-    `
-` // `tick` ""quote"" 'q'
-, }packet u8x {
-char[0 ] As @calculatedFrom( ""packet""	) , @calculatedFrom( ""\" ++ [233]%N ++ runes_of_ascii """ )@lengthOf(
-int )	repeat
     //x
-    trueish
-T
-,float32 o
-`u8 x,` ,}
-//	t
-")).
-Eval vm_compute in ("<<<M748>>>" ++ check (runes_of_ascii "root packet BodyLength {
-    @rightPad ( '\x00'  )
-    repeat char[]len	`" ++ [233]%N ++ runes_of_ascii "`, int32	lengthOf `` //x
-, } root packet matchKey{repeat string u8x `line1
-line2` , Header// @lengthOf(
-{ u128 T
-, // trailing space 
-} , }
-packet
-uint8x{
-    @lengthOf(
-    Header
-)  a1@calculatedFrom( """" )
-    // `tick` ""quote"" 'q'
-    `" ++ [233]%N ++ runes_of_ascii "` ,
-//
+  	// @lengthOf(
+    } MetaData
+	string_  {} 
+packet	roots  { repeat
+
+    f32 As
+`" ++ [28040; 24687; 31867; 22411]%N ++ runes_of_ascii "`
+
+,  }	options  {
+        // " ++ [128512]%N ++ runes_of_ascii " emoji
+
+uint8x
+= ""a	b""  Packet //
+    =
+
+42 ;  pack = 10
+
+    ; 
+tag =
+
+string
+	;repeatCount 
+= // " ++ [27880; 37322]%N ++ runes_of_ascii "
+		char[  0
+	] 
+; } ")).
+Eval vm_compute in ("<<<M1728>>>" ++ check (runes_of_ascii "  // packet A { u8 x, }
+root packet
+
+    charz
+{matchKey{ repeat	Foo
+{// trailing space 
+  uint8 chars	@lengthOf(
+
+x 
+)
+    ,} //
+    	,
+pack
+
+    { rootA @lengthOf( MetaDataX// c
+
+) 
+,
+
+    }// a // b
+    , roots{zchar[
+
+    10  ] leftPad
+    , }
+
+    ,
+    repeat	pack
+
+stringy 
+`two words`  ,
+
+}  , }packet  rootA 
+{ char[ 
+10 ] 
+x_y_z  `{ , }`, uint64
+
+falsey , 
+  // " ++ [27880; 37322]%N ++ runes_of_ascii "
+		} ")).
+Eval vm_compute in ("<<<M1766>>>" ++ check (runes_of_ascii "packet crc
+    { // " ++ [128512]%N ++ runes_of_ascii " emoji
+
+	int
+`" ++ [28040; 24687; 31867; 22411]%N ++ runes_of_ascii "`
+, repeat
+Header`doc` 
+, @tag(
 // " ++ [128512]%N ++ runes_of_ascii " emoji
-}")).
-Eval vm_compute in ("<<<M1138>>>" ++ check (runes_of_ascii "MetaData
-metadata{
-    char[3// " ++ [128512]%N ++ runes_of_ascii " emoji
-] roots , As zchar,
-u
-msg_type	`say ""hi""` , float32 options1 ``	, char[]
-packetx
-    ,
-}root
-packet f32a {
-    char[]
-MetaDataX `{ , }` , }
-/// triple
-// c
-packet _x{
-@lengthOf( A
-) i64 x
-    ,
-    int @lengthOf( // " ++ [128512]%N ++ runes_of_ascii " emoji
-MetaDataX), repeat BodyLength{ f32 lengthOf , } , }
+	65535
+
+) 
+leftPad
+    BodyLength
+    `// not a comment` 	 // " ++ [128512]%N ++ runes_of_ascii " emoji
+  , /// triple
+	char[
+    42 ]  roots`` 	 // a // b
+		,	}
+
+    packet uint8x
+    // `tick` ""quote"" 'q'
+    {
+
+@lengthOf( i8i8
+)
+    // trailing space 
+  	//	t
+    Pad
+
+    MetaDataX//	t
+		,}
+
 ")).
 Eval vm_compute in ("<<<M135>>>" ++ check (runes_of_ascii "packet T{ } packet string_ { @tag(7	)repeat uint8 rootA
     // " ++ [27880; 37322]%N ++ runes_of_ascii "
@@ -1745,794 +831,469 @@ Packet @calculatedFrom(
 x ,
 } , // trailing space 
 }")).
-Eval vm_compute in ("<<<M1292>>>" ++ check (runes_of_ascii "packet body {
-i32
-options1 , } packet
-int {repeat
-    f32a
-{ options1@calculatedFrom(
-    ""abc"" // " ++ [27880; 37322]%N ++ runes_of_ascii "
-)
-    // a // b
-    ,
-    zchar[4294967296 ]calculatedFrom , x_y_z
-@calculatedFrom(""packet""	) `say ""hi""` , }
-,
-}packet x_y_z{
+Eval vm_compute in ("<<<M324>>>" ++ check (runes_of_ascii "packet charz
+    {repeat
+Z9_
+    x , @calculatedFrom( ""`tick`""
+) string A`crlf
+line` ,
 repeat
-    float64 MetaDataX
-    `crlf
-line` //	t
-, crc A ``
-,
-    }
-")).
-Eval vm_compute in ("<<<M1507>>>" ++ check (runes_of_ascii "root packet Foo // " ++ [128512]%N ++ runes_of_ascii " emoji
-{ } options {
-    // a // b
-    tag // `tick` ""quote"" 'q'
-= //	t
-""""
-    ; u8x = zchar[0  ] }
-MetaData
-    int i32 zchar[ 10]
-lengthOf	`` , i64 u8x`// not a comment` ,MetaDataX pack// `tick` ""quote"" 'q'
-`crlf
-line`
-, Logon charz `crlf
-line`
-    ,
-    // a // b
-    }
-")).
-Eval vm_compute in ("<<<M1613>>>" ++ check (runes_of_ascii "root packet Foo // " ++ [128512]%N ++ runes_of_ascii " emoji
-{ } options {
-    // a // b
-    tag // `tick` ""quote"" 'q'
-= //	t
-""""
-    ; u8x = zchar[0  ] }
-MetaData
-    int {zchar[ 10]
-lengthOf	`` , i64 u8x`// not a comment` ,MetaDataX pack// `tick` ""quote"" 'q'
-`crlf
-line`
-, Logon charz `crlf
-line`
-    ,
-    // a // b
-   '' }
-")).
-Eval vm_compute in ("<<<M1466>>>" ++ check (runes_of_ascii "root packet Foo // " ++ [128512]%N ++ runes_of_ascii " emoji
-{ } options {
-    // a // b
-    tag // `tick` ""quote"" 'q'
-= //	t
-""""
-    ; = u8x zchar[0  ] }
-MetaData
-    int {zchar[ 10]
-lengthOf	`` , i64 u8x`// not a comment` ,MetaDataX pack// `tick` ""quote"" 'q'
-`crlf
-line`
-, Logon charz `crlf
-line`
-    ,
-    // a // b
-    }
-")).
-Eval vm_compute in ("<<<M1429>>>" ++ check (runes_of_ascii "root packet Foo // " ++ [128512]%N ++ runes_of_ascii " emoji
-{  options {
-    // a // b
-    tag // `tick` ""quote"" 'q'
-= //	t
-""""
-    ; u8x = zchar[0  ] }
-MetaData
-    int {zchar[ 10]
-lengthOf	`` , i64 u8x`// not a comment` ,MetaDataX pack// `tick` ""quote"" 'q'
-`crlf
-line`
-, Logon charz `crlf
-line`
-    ,
-    // a // b
-    }
-")).
-Eval vm_compute in ("<<<M1444>>>" ++ check (runes_of_ascii "root packet Foo // " ++ [128512]%N ++ runes_of_ascii " emoji
-{ } options {
-    // a // b
-     // `tick` ""quote"" 'q'
-= //	t
-""""
-    ; u8x = zchar[0  ] }
-MetaData
-    int {zchar[ 10]
-lengthOf	`` , i64 u8x`// not a comment` ,MetaDataX pack// `tick` ""quote"" 'q'
-`crlf
-line`
-, Logon charz `crlf
-line`
-    ,
-    // a // b
-    }
-")).
-Eval vm_compute in ("<<<M389>>>" ++ check (runes_of_ascii "MetaData int
-{ //x
-u8x
-float , zchar[3 ] body	`" ++ [28040; 24687; 31867; 22411]%N ++ runes_of_ascii "`, Z9_ leftPad // c
-, f32a
-    msg_type , i64_ // " ++ [27880; 37322]%N ++ runes_of_ascii "
-chars, u8x	o,
-    // packet A { u8 x, }
-    } options{ Z9_
-    // packet A { u8 x, }
-    = false ;
-MetaDataX = // packet A { u8 x, }
-'\x00' ; f32a=
-    """ ++ [28040; 24687]%N ++ runes_of_ascii """
-; x_y_z = ' ';}
-
-")).
-Eval vm_compute in ("<<<M3945>>>" ++ check (runes_of_ascii "
-packet Sub { u8
-
-a 
-,
-@calculatedFrom( ""CRC16""
-)
-
-    i16 
-SubSum 
-,
-
-    }
-	root
-
-    packet
-	Frame{
-	u16
-MsgType 
-,
-u16 BodyLen
-
-    @lengthOf(  Body
-
-)
-
-    ,
-
-Sub 
-Body
-	, string
-    note
-
-    ,
-@calculatedFrom(  ""CRC16"" )
-    i16  Checksum ,u8	tail,
-	}")).
-Eval vm_compute in ("<<<M1294>>>" ++ check (runes_of_ascii "packet _x { // packet A { u8 x, }
-repeat
-    u8
-// @lengthOf(
-//	t
-Logon ,match Packet as repeatCount
+    crc// trailing space 
 {
-    65535 : leftPad
-    ,[ 7 ]: rootA 4294967296	: Header ,[	00 // trailing space 
-]:u8x
-    ,42 : MetaDataX , 007 :
-// " ++ [27880; 37322]%N ++ runes_of_ascii "
-// " ++ [27880; 37322]%N ++ runes_of_ascii "
-uint8x , // @lengthOf(
-} ,}")).
-Eval vm_compute in ("<<<M344>>>" ++ check (runes_of_ascii "packet
-chars {repeat float32  x_y_z
-    , @tag( 0123456789
-    )	char[
-255	] rootA `{ , }` , } options  { x= zchar[
-    00
-] ;
-Packet= '\x00' ; }
-    options{Z9_ =// packet A { u8 x, }
-""CRC32"" ;
-    As = // `tick` ""quote"" 'q'
-uint32 ; } // a // b")).
-Eval vm_compute in ("<<<M3763>>>" ++ check (runes_of_ascii "root packet Foo {
-}
-
-options {
-    // a // b
-    tag = """";
-    u8x = zchar[0]
-}
-
-MetaData int {
-    zchar[10] lengthOf ``,
-    i64 u8x `// not a comment`,
-    MetaDataX pack `crlf
-    line`,
-    charz Logon `crlf
-    line`,
-    // a // b
-}")).
-Eval vm_compute in ("<<<M3874>>>" ++ check (runes_of_ascii "MetaData len {
-    f64 u,
-    char[] Z9_ `doc`,
-    metadata A,
-    i64 stringy `line1
-    line2`,
-    A int `line1
-    line2`,
-    f32 i8i8,
-}
-
-packet stringy {
-    @calculatedFrom(""" ++ [128512]%N ++ runes_of_ascii """)
-    char[] roots,
-}
-
-root packet metadata {
-}")).
-Eval vm_compute in ("<<<M2389>>>" ++ check (runes_of_ascii "MetaData Packet { @lengthOf}packet	asx  { @lengthOf( asx) falsey`crlf
-line`
-,
-    }
-    packet x	{uint32// @lengthOf(
-rootA	,u32 options1 `say ""hi""` , @tag( 7
-    )// packet A { u8 x, }
-msg_type @lengthOf(
-stringy	)	, }
-
-")).
-Eval vm_compute in ("<<<M2236>>>" ++ check (runes_of_ascii "MetaData Packet { }packet	asx asx  { @lengthOf( asx) falsey`crlf
-line`
-,
-    }
-    packet x	{uint32// @lengthOf(
-rootA	,u32 options1 `say ""hi""` , @tag( 7
-    )// packet A { u8 x, }
-msg_type @lengthOf(
-stringy	)	, }
-
-")).
-Eval vm_compute in ("<<<M313>>>" ++ check (runes_of_ascii "
-packet	stringy
-//	t
-// " ++ [128512]%N ++ runes_of_ascii " emoji
-{ match calculatedFrom // a // b
-as MetaDataX { [ ""a\\"", """ ++ [28040; 24687]%N ++ runes_of_ascii """,// `tick` ""quote"" 'q'
-""CRC32"" ,
-10 ]:x,
-    /// triple
-    0
-:  falsey
-, 1 :u8x ,
-//x
-// c
-65535
-    :	Foo , }
-,
-    }")).
-Eval vm_compute in ("<<<M2272>>>" ++ check (runes_of_ascii "MetaData Packet { }packet	asx  { @lengthOf( asx) falsey`crlf
-line`
-}
-    ,
-    packet x	{uint32// @lengthOf(
-rootA	,u32 options1 `say ""hi""` , @tag( 7
-    )// packet A { u8 x, }
-msg_type @lengthOf(
-stringy	)	, }
-
-")).
-Eval vm_compute in ("<<<M2290>>>" ++ check (runes_of_ascii "MetaData Packet { }packet	asx  { @lengthOf( asx) falsey`crlf
-line`
-,
-    }
-    packet x	uint32// @lengthOf(
-rootA	,u32 options1 `say ""hi""` , @tag( 7
-    )// packet A { u8 x, }
-msg_type @lengthOf(
-stringy	)	, }
-
-")).
-Eval vm_compute in ("<<<M2300>>>" ++ check (runes_of_ascii "MetaData Packet { }packet	asx  { @lengthOf( asx) falsey`crlf
-line`
-,
-    }
-    packet x	{uint32// @lengthOf(
-	,u32 options1 `say ""hi""` , @tag( 7
-    )// packet A { u8 x, }
-msg_type @lengthOf(
-stringy	)	, }
-
-")).
-Eval vm_compute in ("<<<M26>>>" ++ check (runes_of_ascii "  packet lengthOf// " ++ [27880; 37322]%N ++ runes_of_ascii "
-{ @leftPad(
-)
-    // a // b
-    @tag( 7
-//x
+repeat u8x , char[42 //
+] //x
+x @lengthOf(
+o )	,} ,} MetaData //
+tag { uint16 falsey
+    `say ""hi""` ,
+i32 asx ,char[ 007 ] As
+// a // b
 /// triple
-)
-u8 BodyLength ,
-    char[ 1
-] chars
-`
-`,
-@tag( 00 )char[ 0]
-    // packet A { u8 x, }
-    Z9_ @lengthOf(
-float) `u8 x,` ,
-}")).
-Eval vm_compute in ("<<<M1189>>>" ++ check (runes_of_ascii "options {
-}root packet x_y_z { //
-int32 f32a
-    `u8 x,` , @calculatedFrom( ""{,}"" ) Header @calculatedFrom( """" ) ,//	t
-zchar[
-4294967296] //x
-roots@lengthOf( string_
-)
-    , }packet rootA
-{
-    }
+, }
 ")).
-Eval vm_compute in ("<<<M1563>>>" ++ check (runes_of_ascii "root packet Foo // " ++ [128512]%N ++ runes_of_ascii " emoji
-{ } options {
-    // a // b
-    tag // `tick` ""quote"" 'q'
-= //	t
-""""
-    ; u8x = zchar[0  ] }
-MetaData
-    int {zchar[ 10]
-lengthOf	`` , i64 u8x`// not a comment` ,")).
-Eval vm_compute in ("<<<M3685>>>" ++ check (runes_of_ascii "packet A {
+Eval vm_compute in ("<<<M59>>>" ++ check (runes_of_ascii "packet _x { Packet { chars
+    Logon
+,int8 float , i64 rootA `" ++ [233]%N ++ runes_of_ascii "` ,} /// triple
+,@calculatedFrom(
+""abc"" )
+    x_y_z
+{ leftPad // trailing space 
+charz
+`a\` ,i32 metadata `say ""hi""` ,} , charz rootA `u8 x,`, }  root// " ++ [128512]%N ++ runes_of_ascii " emoji
+packet f32a//
+{ }
+")).
+Eval vm_compute in ("<<<M388>>>" ++ check (runes_of_ascii "options options
+{
+matchKey = 42/// triple
+x='0' ;
+// packet A { u8 x, }
+//
+charz
+=
+// packet A { u8 x, }
+// trailing space 
+true  ; } MetaData BodyLength
+{
+uint8
+pack,zchar[ 1]float ,  float32 x_y_z `` ,u32
+_x,i16 body  , }
+")).
+Eval vm_compute in ("<<<M404>>>" ++ check (runes_of_ascii "options
+{
+matchKey root 42/// triple
+x='0' ;
+// packet A { u8 x, }
+//
+charz
+=
+// packet A { u8 x, }
+// trailing space 
+true  ; } MetaData BodyLength
+{
+uint8
+pack,zchar[ 1]float ,  float32 x_y_z `` ,u32
+_x,i16 body  , }
+")).
+Eval vm_compute in ("<<<M575>>>" ++ check (runes_of_ascii "options
+{
+matchKey = 42/// triple
+x='0' ;
+// packet A { u8 x, }
+//
+charz
+=
+// packet A { u8 x, }
+// trailing space 
+t@xrue  ; } MetaData BodyLength
+{
+uint8
+pack,zchar[ 1]float ,  float32 x_y_z `` ,u32
+_x,i16 body  , }
+")).
+Eval vm_compute in ("<<<M433>>>" ++ check (runes_of_ascii "options
+{
+matchKey = 42/// triple
+x='0' ;
+// packet A { u8 x, }
+//
+=
+charz
+// packet A { u8 x, }
+// trailing space 
+true  ; } MetaData BodyLength
+{
+uint8
+pack,zchar[ 1]float ,  float32 x_y_z `` ,u32
+_x,i16 body  , }
+")).
+Eval vm_compute in ("<<<M426>>>" ++ check (runes_of_ascii "options
+{
+matchKey = 42/// triple
+x='0' 
+// packet A { u8 x, }
+//
+charz
+=
+// packet A { u8 x, }
+// trailing space 
+true  ; } MetaData BodyLength
+{
+uint8
+pack,zchar[ 1]float ,  float32 x_y_z `` ,u32
+_x,i16 body  , }
+")).
+Eval vm_compute in ("<<<M431>>>" ++ check (runes_of_ascii "options
+{
+matchKey = 42/// triple
+x='0' ;
+// packet A { u8 x, }
+//
+
+=
+// packet A { u8 x, }
+// trailing space 
+true  ; } MetaData BodyLength
+{
+uint8
+pack,zchar[ 1]float ,  float32 x_y_z `` ,u32
+_x,i16 body  , }
+")).
+Eval vm_compute in ("<<<M166>>>" ++ check (runes_of_ascii "packet u128 {
+@rightPad (
+    ' '
+    //x
+    )// c
+Packet , f64
+//
+// @lengthOf(
+Pad `it's` , }packet i64_{ } packet trueish { @leftPad	( '\x00')leftPad
+@calculatedFrom( // " ++ [27880; 37322]%N ++ runes_of_ascii "
+""`tick`"" ) `u8 x,` , }
+")).
+Eval vm_compute in ("<<<M706>>>" ++ check (runes_of_ascii "// c
+packet i64_ {	char[] calculatedFrom , } packet
+trueish  {@calculatedFrom(
+""a\\"" ""a\\"" ) o { i32 falsey@lengthOf( uint8x ),
+} , } // `tick` ""quote"" 'q'
+options {// c
+Z9_ = ' '//
+}
+")).
+Eval vm_compute in ("<<<M1908>>>" ++ check (runes_of_ascii "options {
+    // `tick` ""quote"" 'q'
+    len = """ ++ [28040; 24687]%N ++ runes_of_ascii """;
+    options1 = int32
+    zchar = ""1"";
+    float = true
+    tag = """ ++ [28040; 24687]%N ++ runes_of_ascii """;
+}
+
+MetaData u128 {
+    msg_type i8i8 `doc`,
+    o body,
+}")).
+Eval vm_compute in ("<<<M1839>>>" ++ check (runes_of_ascii "packet A {
+    match k as n {
+        [
+            ""a"", ""bb"", ""c c"", ""d"", ""e"",
+            ""f"", ""g"", ""h"", ""i"", ""j"",
+            ""k"", ""l""
+        ] : B,
+        2 : C,
+    },
+}")).
+Eval vm_compute in ("<<<M81>>>" ++ check (runes_of_ascii "root packet
+x_y_z {
+    @leftPad
+    (
+' ')uint8x { float32 len @calculatedFrom(""it's""
+    //
+    )
+`" ++ [233]%N ++ runes_of_ascii "` ,match o as stringy{ [""{,}""
+    ] : x
+    , }
+    ,
+}
+, }
+")).
+Eval vm_compute in ("<<<M1390>>>" ++ check (runes_of_ascii "packet
+A
+
+{ u8
+
+    a
+    ,
+
+}
+	packet
+B
+{
+u16 b
+,
+    }
+    root
+packet P{
+u8
+K  ,match K	as M
+	{
+[ 1 ,
+	2
+] : A , 3	: B , 
+7 
+:	A, 
+} , }
+")).
+Eval vm_compute in ("<<<M1586>>>" ++ check (runes_of_ascii "packet
+
+Logon
+
+{
+
+    @tag(42
+
+    )
+    @rightPad (
+' '
+
+    )@leftPad(
+)repeat 
+trueish {
+
+    string T 
+	    // c
+	, },
+
+}
+")).
+Eval vm_compute in ("<<<M2022>>>" ++ check (runes_of_ascii "packet A {
+    match k as n {
+        [
+            1, 22, 007, 4, 5,
+            66, 7, 8, 9
+        ] : B,
+        2 : C,
+    },
+}")).
+Eval vm_compute in ("<<<M455>>>" ++ check (runes_of_ascii "options
+{
+matchKey = 42/// triple
+x='0' ;
+// packet A { u8 x, }
+//
+charz
+=
+// packet A { u8 x, }
+// trailing space 
+true  ;")).
+Eval vm_compute in ("<<<M1837>>>" ++ check (runes_of_ascii "  packet	calculatedFrom { @tag( 4294967296	) u msg_type, char[  3
+
+    ]
+crc  // c
+  @lengthOf(
+	len 
+)
+`u8 x,`
+,  }")).
+Eval vm_compute in ("<<<M1657>>>" ++ check (runes_of_ascii "packet A
+{
+
+match
+	k  as
+n
+{
+[ ""a"" ,
+	""bb"",
+	""c c""
+,	""d""
+    , 
+""e""  ,	""f"" ,
+""g""
+    , ""h""
+]
+: B
+	, 2 
+: C}
+
+,}
+
+")).
+Eval vm_compute in ("<<<M1611>>>" ++ check (runes_of_ascii "
+
+  packet A {match
+k
+
+    as
+    n{  [	""a"" , 22
+,
+""c c""
+,
+
+4,  ""e""	, 66
+	, 
+""g""
+, 8  ]	: 
+B 2
+: C
+
+    } ,}
+")).
+Eval vm_compute in ("<<<M1573>>>" ++ check (runes_of_ascii "packet
+    Logon{ @tag(	42
+
+)	@rightPad	(  ' ') // c
+    @leftPad ( )
+repeat  trueish 
+{ string
+T
+
+,
+    } ,
+}")).
+Eval vm_compute in ("<<<M879>>>" ++ check (runes_of_ascii "packet A {
+  match k as n {
+    [""a"", ""bb"", ""c c"", ""d"", ""e"", ""f"", ""g"", ""h"", ""i"", ""j""] : B,
+    2 : C
+  },
+}")).
+Eval vm_compute in ("<<<M925>>>" ++ check (runes_of_ascii "packet A {
     Inner {
         u8 x `a
-                
-                b`,
+b`,
         Deep {
             u8 y `a
-                        
-                        b`,
+b`,
         },
     },
 }")).
-Eval vm_compute in ("<<<M1114>>>" ++ check (runes_of_ascii "
-packet stringy{ @tag( 0
-    )// packet A { u8 x, }
-repeatCount ,@calculatedFrom( """"
-)body	falsey,
-    @lengthOf(// " ++ [27880; 37322]%N ++ runes_of_ascii "
-chars
-) repeat x_y_z `two words`	, repeatCount Pad , }
-")).
-Eval vm_compute in ("<<<M4006>>>" ++ check (runes_of_ascii "// packet A { u8 x, }
-packet BodyLength {
-    @tag(255)
-    repeat uint64 f32a,
-}
-
-packet chars {
-}
-
-MetaData zchar {
-    char[] tag `a\`,
-    body Logon `tab	here`,
-}")).
-Eval vm_compute in ("<<<M1237>>>" ++ check (runes_of_ascii "
-MetaData
-    int {
-    string Z9_  `say ""hi""`, char[]// @lengthOf(
-uint8x // packet A { u8 x, }
-`// not a comment` , char[]Foo , trueish T , // " ++ [27880; 37322]%N ++ runes_of_ascii "
-asx asx , }
-")).
-Eval vm_compute in ("<<<M4503>>>" ++ check (runes_of_ascii "packet 
-A {
-    match
-k
-    as n
-    { 
-[ ""a"" ,
-	""bb"" 
-,007
-
-    ,	""d""
-
-,""e"" 
-,
-
-    66 ,
-
-""g""
-
-, ""h"", 9  ,
-
-    ""j""
-    , ""k"" ] 
-:
-B
-	,2:C
-}, } ")).
-Eval vm_compute in ("<<<M775>>>" ++ check (runes_of_ascii "packet
-Logon
-    { // " ++ [27880; 37322]%N ++ runes_of_ascii "
-repeat MetaDataX { /// triple
-MetaDataX @lengthOf(// @lengthOf(
-matchKey ), } , @lengthOf(len) repeat zchar[00	]u8x , }
-")).
-Eval vm_compute in ("<<<M4280>>>" ++ check (runes_of_ascii "MetaData chars {
-    char[] Header `say ""hi""`,
-    char[] matchKey,
-    char[1] u8x,
-    zchar A,
-    x falsey,
-    zchar[42] calculatedFrom,
-}")).
-Eval vm_compute in ("<<<M3675>>>" ++ check (runes_of_ascii "options {
-    charz = 00;
-    leftPad = zchar[0123456789];
-    //x
-    /// triple
-}
-
-options {
-    falsey = u32;
-}
-
-root packet float {
-}")).
-Eval vm_compute in ("<<<M1315>>>" ++ check (runes_of_ascii "packet
-lengthOf  { @calculatedFrom(
-""packet"" // `tick` ""quote"" 'q'
-) @lengthOf( /// triple
-options1 ) char[]int , } packet
-u8x {	}
-")).
-Eval vm_compute in ("<<<M1180>>>" ++ check (runes_of_ascii "packet
-x{ @calculatedFrom("""" )repeat
-asx	{ //x
-char[ 255 ] x
-    ,}// packet A { u8 x, }
-,  }
-    options  { Pad = // " ++ [27880; 37322]%N ++ runes_of_ascii "
-1//	t
-}")).
-Eval vm_compute in ("<<<M1644>>>" ++ check (runes_of_ascii "root packet /// triple
-rootA {	MetaDataX
-i32@calculatedFrom( ""CRC32"" ) `line1
-line2` , } MetaData BodyLength {
-u8
-rootA, } // c")).
-Eval vm_compute in ("<<<M888>>>" ++ check (runes_of_ascii "MetaData u8x {
-_x Z9_, char[ 7] Logon `it's` ,char[] zchar ,
-    u
-Z9_`two words`
-, u16 f32a `a\` , zchar[ 42 ]
-    f32a ,}
-")).
-Eval vm_compute in ("<<<M1395>>>" ++ check (runes_of_ascii "options
-{ repeatCount
-=
-u16 // `tick` ""quote"" 'q'
-; float  =  ' ' Logon = string
-;packetx = // " ++ [128512]%N ++ runes_of_ascii " emoji
-3//
-a1=  zchar[7	] }")).
-Eval vm_compute in ("<<<M3436>>>" ++ check (runes_of_ascii "packet B {
-    u8 a,
-}
-root packet P {
-    u8 K,
-    u64 L @lengthOf(Body),
-    match K as Body {
-        1 : B,
+Eval vm_compute in ("<<<M1282>>>" ++ check (runes_of_ascii "packet calculatedFrom { @tag( 4294967296 ) u msg_type , char[ 3 ] crc @lengthOf( len
+// c
+) `u8 x,` , }")).
+Eval vm_compute in ("<<<M955>>>" ++ check (runes_of_ascii "packet A {
+    Inner {
+        u8 x `
+x`,
+        Deep {
+            u8 y `
+x`,
+        },
     },
-}
-")).
-Eval vm_compute in ("<<<M4301>>>" ++ check (runes_of_ascii "
-packet
-	A
-
-    {	match k
-as 
-n
-
-{	[
-
-1 ,22  , 007,
-4
-
-,
-
-5
-
-    ,66
-
-    ]  :
-
-    B
-	,
-    2
-    :  C }
-,
-}
-
-")).
-Eval vm_compute in ("<<<M1853>>>" ++ check (runes_of_ascii "packet
-    Pad // a // b
-{ i8i8 @calculatedFrom( ""a	b"") `u8 x,` ,
-} options{ float// " ++ [128512]%N ++ runes_of_ascii " emoji
-= root i64_
-=//	t
-00 }
-")).
-Eval vm_compute in ("<<<M1827>>>" ++ check (runes_of_ascii "packet
-    Pad // a // b
-{ i8i8 @calculatedFrom( ""a	b"") `u8 x,` ,
-options }{ float// " ++ [128512]%N ++ runes_of_ascii " emoji
-= f64 i64_
-=//	t
-00 }
-")).
-Eval vm_compute in ("<<<M3993>>>" ++ check (runes_of_ascii "packet
-Logon
-
-{@tag(42
-)@rightPad
-	(
-' ' // c
-
-	) @leftPad
-
-    ()
-
-    repeat  trueish {	string 
-T ,
-
-}	,  } ")).
-Eval vm_compute in ("<<<M1795>>>" ++ check (runes_of_ascii "packet
-    Pad // a // b
-{  @calculatedFrom( ""a	b"") `u8 x,` ,
-} options{ float// " ++ [128512]%N ++ runes_of_ascii " emoji
-= f64 i64_
-=//	t
-00 }
-")).
-Eval vm_compute in ("<<<M250>>>" ++ check (runes_of_ascii "
-MetaData	Logon {	zchar[ 10 ]float `" ++ [233]%N ++ runes_of_ascii "` , BodyLength Z9_ , float32 o `a\` ,uint64 roots `two words` // " ++ [27880; 37322]%N ++ runes_of_ascii "
-,  }
-")).
-Eval vm_compute in ("<<<M1869>>>" ++ check (runes_of_ascii "packet
-    Pad // a // b
-{ i8i8 @calculatedFrom( ""a	b"") `u8 x,` ,
-} options{ float// " ++ [128512]%N ++ runes_of_ascii " emoji
-= f64 i64_
-=")).
-Eval vm_compute in ("<<<M1473>>>" ++ check (runes_of_ascii "root packet Foo // " ++ [128512]%N ++ runes_of_ascii " emoji
-{ } options {
-    // a // b
-    tag // `tick` ""quote"" 'q'
-= //	t
-""""
-    ; u8x")).
-Eval vm_compute in ("<<<M3351>>>" ++ check (runes_of_ascii "packet calculatedFrom { @tag( 4294967296 ) u // c
-msg_type , char[ 3 ] crc @lengthOf( len ) `u8 x,` , }")).
-Eval vm_compute in ("<<<M2973>>>" ++ check (runes_of_ascii "packet A {
+}")).
+Eval vm_compute in ("<<<M870>>>" ++ check (runes_of_ascii "packet A {
   match k as n {
-    [""a"", ""bb"", 007, ""d"", ""e"", 66, ""g"", ""h"", 9, ""j""] : B,
+    [""a"", 22, ""c c"", 4, ""e"", 66, ""g"", 8, ""i""] : B,
     2 : C
   },
 }")).
-Eval vm_compute in ("<<<M178>>>" ++ check (runes_of_ascii "packet As {
-int16
-A , }packet u	{ @lengthOf( Pad
-)
-    f64
-    metadata	@lengthOf( a1
-)
-    ,
-}
-")).
-Eval vm_compute in ("<<<M3215>>>" ++ check (runes_of_ascii "
+Eval vm_compute in ("<<<M1160>>>" ++ check (runes_of_ascii "packet Logon { @tag( 42 ) @rightPad ( ' ' ) @leftPad ( ) repeat trueish { // c
+string T , } , }")).
+Eval vm_compute in ("<<<M1592>>>" ++ check (runes_of_ascii "  packet A{ match k
+
+    as n
+    { [
+1
+
+,	""bb""	,	007,
+
+""d""
+
+    ]: B,	2 
+:C
+} ,
+    } ")).
+Eval vm_compute in ("<<<M849>>>" ++ check (runes_of_ascii "packet A {
+  match k as n {
+    [""a"", ""bb"", 007, ""d"", ""e"", 66, ""g""] : B
+    2 : C
+  },
+}")).
+Eval vm_compute in ("<<<M860>>>" ++ check (runes_of_ascii "packet A {
+  match k as n {
+    [1, 22, ""c c"", 4, 5, ""f"", 7, 8] : B
+    2 : C
+  },
+}")).
+Eval vm_compute in ("<<<M1211>>>" ++ check (runes_of_ascii "packet o
 // c
-packet Logon { @tag( 42 ) @rightPad ( ' ' ) @leftPad ( ) repeat trueish { string T , } , }")).
-Eval vm_compute in ("<<<M3227>>>" ++ check (runes_of_ascii "packet Logon { @tag( 42 )
+{ @tag( 42 ) repeat x { char[ 0123456789 ] i64_ , } , } options { }")).
+Eval vm_compute in ("<<<M1243>>>" ++ check (runes_of_ascii "packet o { @tag( 42 ) repeat x { char[ 0123456789 ] i64_ , } , } options
 // c
-@rightPad ( ' ' ) @leftPad ( ) repeat trueish { string T , } , }")).
-Eval vm_compute in ("<<<M4138>>>" ++ check (runes_of_ascii "
-packet	o	{	@tag( 42
-	) repeat x
-
-{	char[  0123456789  ]
-
-i64_, }
-
-    ,}
-options	{ }	// c
+{ }")).
+Eval vm_compute in ("<<<M234>>>" ++ check (runes_of_ascii "packet	As{ match  repeatCount as metadata
+{ 007 : //x
+crc, ""a	b"" :
+    A} , }
 ")).
-Eval vm_compute in ("<<<M2977>>>" ++ check (runes_of_ascii "packet A {
+Eval vm_compute in ("<<<M1904>>>" ++ check (runes_of_ascii "options {
+    metadata = ""a	b""
+    u = 0;// trailing space 
+    i8i8 = 0;
+}")).
+Eval vm_compute in ("<<<M789>>>" ++ check (runes_of_ascii "packet A {
   match k as n {
-    [1, 22, 007, 4, 5, 66, 7, 8, 9, 10, 11] : B
+    [""a"", ""bb"", ""c c""] : B
     2 : C
   },
 }")).
-Eval vm_compute in ("<<<M519>>>" ++ check (runes_of_ascii "packet x{ //
-Header ,repeat float32 i8i8
-,
-// `tick` ""quote"" 'q'
-// packet A { u8 x, }
-}
-")).
-Eval vm_compute in ("<<<M1972>>>" ++ check (runes_of_ascii "root
-packet crc
-    { { f32a @calculatedFrom( """ ++ [233]%N ++ runes_of_ascii "t" ++ [233]%N ++ runes_of_ascii """ )
-    `say ""hi""`, lengthOf `` ,  }")).
-Eval vm_compute in ("<<<M2038>>>" ++ check (runes_of_ascii "root
-packet crc
-    { f32a @calculatedFrom( """ ++ [233]%N ++ runes_of_ascii "t" ++ [233]%N ++ runes_of_ascii """ )
-    `say ""hi""`, lengthOf $`` ,  }")).
-Eval vm_compute in ("<<<M2945>>>" ++ check (runes_of_ascii "packet A {
-  match k as n {
-    [1, 22, ""c c"", 4, 5, ""f"", 7, 8] : B,
-    2 : C
-  },
+Eval vm_compute in ("<<<M1325>>>" ++ check (runes_of_ascii "MetaData _x { zchar[ 4294967296 ] lengthOf `// not a comment` , // c
 }")).
-Eval vm_compute in ("<<<M2922>>>" ++ check (runes_of_ascii "packet A {
-  match k as n {
-    [""a"", ""bb"", 007, ""d"", ""e"", 66] : B
-    2 : C
-  },
-}")).
-Eval vm_compute in ("<<<M3294>>>" ++ check (runes_of_ascii "packet // c
-o { @tag( 42 ) repeat x { char[ 0123456789 ] i64_ , } , } options { }")).
-Eval vm_compute in ("<<<M3326>>>" ++ check (runes_of_ascii "packet o { @tag( 42 ) repeat x { char[ 0123456789 ] i64_ , } , } // c
-options { }")).
-Eval vm_compute in ("<<<M1250>>>" ++ check (runes_of_ascii "
-options
-    // " ++ [128512]%N ++ runes_of_ascii " emoji
-    {
-lengthOf =
-    f64 ;body=
-    true ; } // a // b")).
-Eval vm_compute in ("<<<M2905>>>" ++ check (runes_of_ascii "packet A {
-  match k as n {
-    [""a"", 22, ""c c"", 4, ""e""] : B
-    2 : C
-  },
-}")).
-Eval vm_compute in ("<<<M2912>>>" ++ check (runes_of_ascii "packet A {
-  match k as n {
-    [1, 22, 007, 4, 5, 66] : B
-    2 : C
-  },
-}")).
-Eval vm_compute in ("<<<M237>>>" ++ check (runes_of_ascii "// " ++ [128512]%N ++ runes_of_ascii " emoji
-packet	roots
-    // trailing space 
-    {
-    } // @lengthOf(")).
-Eval vm_compute in ("<<<M2195>>>" ++ check (runes_of_ascii "root
-    // `tick` ""quote"" 'q'
-    @tagpacket As { trueish Packet , }
-")).
-Eval vm_compute in ("<<<M471>>>" ++ check (runes_of_ascii "MetaData charz {  int8 _x `tab	here` ,u64 Pad
-`say ""hi""`
-    ,
-    }
-")).
-Eval vm_compute in ("<<<M2762>>>" ++ check (runes_of_ascii "@lengthOf( ; @tag( u16 , @tag( ""it's"" @tag( [ @leftPad char[] char[]")).
-Eval vm_compute in ("<<<M2159>>>" ++ check (runes_of_ascii "root
-    // `tick` ""quote"" 'q'
-    As packet { trueish Packet , }
-")).
-Eval vm_compute in ("<<<M4488>>>" ++ check (runes_of_ascii "MetaData Pad {
-    Foo a1,
-    f64 metadata,
-    zchar string_,
-}")).
-Eval vm_compute in ("<<<M1750>>>" ++ check (runes_of_ascii "options { `// not a comment`options {  } // `tick` ""quote"" 'q'")).
-Eval vm_compute in ("<<<M2176>>>" ++ check (runes_of_ascii "root
-    // `tick` ""quote"" 'q'
-    packet As { trueish  , }
-")).
-Eval vm_compute in ("<<<M2832>>>" ++ check (runes_of_ascii "] u8 u32 `line1
-line2` root ) char ) match '\x00' int8 = (")).
-Eval vm_compute in ("<<<M466>>>" ++ check (runes_of_ascii "options
-{ string_=
-7 tag = string;
-roots
-=true  ; } 	 ")).
-Eval vm_compute in ("<<<M3748>>>" ++ check (runes_of_ascii "
+Eval vm_compute in ("<<<M1899>>>" ++ check (runes_of_ascii "root
+packet 
 
-  MetaData
-	trueish
-{	i8
-	MetaDataX // " ++ [27880; 37322]%N ++ runes_of_ascii "
-    	, 
-}
-")).
-Eval vm_compute in ("<<<M3872>>>" ++ check (runes_of_ascii "MetaData
-	A {  i64 chars 
-,}// `tick` ""qu?ote"" 'q'
-")).
-Eval vm_compute in ("<<<M3170>>>" ++ check (runes_of_ascii "packet A { B { // a
- u8 x, // b
- } // c
- , // d
- }")).
-Eval vm_compute in ("<<<M1934>>>" ++ check (runes_of_ascii "
-packet	As { @calculatedFrom(//x
-""{,}""	)lengthOf")).
-Eval vm_compute in ("<<<M2844>>>" ++ check (runes_of_ascii "char[] options 007 , repeat int64 00 { } zchar[")).
-Eval vm_compute in ("<<<M735>>>" ++ check (runes_of_ascii "
-options
-{ stringy =' ' /// triple
-;
-    } 	 ")).
-Eval vm_compute in ("<<<M2840>>>" ++ check (runes_of_ascii "[ u8 char[] int64 string } ""\" ++ [233]%N ++ runes_of_ascii """ packet char[")).
-Eval vm_compute in ("<<<M1741>>>" ++ check (runes_of_ascii "char { }options {  } // `tick` ""quote"" 'q'")).
-Eval vm_compute in ("<<<M4507>>>" ++ check (runes_of_ascii "options
+    // packet A { u8 x, }
+//	t
 
+  Z9_
+
+    {  }
+")).
+Eval vm_compute in ("<<<M778>>>" ++ check (runes_of_ascii "packet A {
+  match k as n {
+    [1, 22] : B
+    2 : C
+  },
+}")).
+Eval vm_compute in ("<<<M773>>>" ++ check (runes_of_ascii "packet A {
+  match k as n {
+    [1] : B
+    2 : C
+  },
+}")).
+Eval vm_compute in ("<<<M1612>>>" ++ check (runes_of_ascii "MetaData stringy {
+    char[0] chars `{ , }`,
+}")).
+Eval vm_compute in ("<<<M1102>>>" ++ check (runes_of_ascii "// c
+MetaData zchar { zchar[ 3 ] Pad , }")).
+Eval vm_compute in ("<<<M348>>>" ++ check (runes_of_ascii "packet
+    A
+{} options {
+T	=
+'0' }
+")).
+Eval vm_compute in ("<<<M1707>>>" ++ check (runes_of_ascii "
+packet  A 
 {
 
-    Z9_ =
+    }  
+  // c" ++ [8203]%N ++ runes_of_ascii "
+")).
+Eval vm_compute in ("<<<M982>>>" ++ check (runes_of_ascii "packet A {
+ u8 x `d" ++ [12288]%N ++ runes_of_ascii "`, // c" ++ [12288]%N ++ runes_of_ascii "
+}")).
+Eval vm_compute in ("<<<M761>>>" ++ check (runes_of_ascii "6h""i_JCeOcKDsBMyC`8Wv)}U=9O")).
+Eval vm_compute in ("<<<M1191>>>" ++ check (runes_of_ascii "options { u8x = // c
+3 }")).
+Eval vm_compute in ("<<<M218>>>" ++ check (runes_of_ascii "
+packet len
+    { }")).
+Eval vm_compute in ("<<<M1006>>>" ++ check (runes_of_ascii "// c" ++ [8202]%N ++ runes_of_ascii "
+packet A {
+}")).
+Eval vm_compute in ("<<<M988>>>" ++ check (runes_of_ascii "packet A {
+}// c" ++ [133]%N)).
+Eval vm_compute in ("<<<M1900>>>" ++ check (runes_of_ascii "
 
-    '\x00'
-	}
+  // c" ++ [8202]%N ++ runes_of_ascii "
+ 
 ")).
-Eval vm_compute in ("<<<M3194>>>" ++ check (runes_of_ascii "MetaData zchar { // c
-zchar[ 3 ] Pad , }")).
-Eval vm_compute in ("<<<M2193>>>" ++ check (runes_of_ascii "root
-    // `tick` ""quote"" 'q'
-    pack")).
-Eval vm_compute in ("<<<M3765>>>" ++ check (runes_of_ascii "root packet As {
-    trueish Packet,
-}")).
-Eval vm_compute in ("<<<M2602>>>" ++ check (runes_of_ascii "packet A { match k as n { 1 : B }, }")).
-Eval vm_compute in ("<<<M2611>>>" ++ check (runes_of_ascii "packet A { match k as { 1 : B }, }")).
-Eval vm_compute in ("<<<M1804>>>" ++ check (runes_of_ascii "packet
-    Pad // a // b
-{ i8i8")).
-Eval vm_compute in ("<<<M4164>>>" ++ check (runes_of_ascii "options {
-    Logon = '\x00';
-}")).
-Eval vm_compute in ("<<<M3123>>>" ++ check (runes_of_ascii "packet A {
- u8 x `d" ++ [12]%N ++ runes_of_ascii "`, // c" ++ [12]%N ++ runes_of_ascii "
-}")).
-Eval vm_compute in ("<<<M2062>>>" ++ check (runes_of_ascii "MetaData A { u64 u64 pack, }")).
-Eval vm_compute in ("<<<M2771>>>" ++ check (runes_of_ascii "yI^UB""SmPxS\Q^)mT~k`!;LS}q%")).
-Eval vm_compute in ("<<<M2715>>>" ++ check (runes_of_ascii " " ++ [65533]%N ++ runes_of_ascii "=" ++ [65533; 972; 65533; 65533; 7; 65533; 65533; 1876; 65533; 65533]%N ++ runes_of_ascii "4G" ++ [27; 65533; 18; 65533]%N ++ runes_of_ascii "U" ++ [65533; 65533]%N ++ runes_of_ascii "+" ++ [65533; 23]%N ++ runes_of_ascii "{")).
-Eval vm_compute in ("<<<M3381>>>" ++ check (runes_of_ascii "
-// c
-packet lengthOf { }")).
-Eval vm_compute in ("<<<M3275>>>" ++ check (runes_of_ascii "options { u8x // c
-= 3 }")).
-Eval vm_compute in ("<<<M2789>>>" ++ check (runes_of_ascii "packet `say ""hi""` int32")).
-Eval vm_compute in ("<<<M4031>>>" ++ check (runes_of_ascii "packet repeatCount {
-}")).
-Eval vm_compute in ("<<<M552>>>" ++ check (runes_of_ascii "MetaData Packet  { }")).
-Eval vm_compute in ("<<<M2667>>>" ++ check (runes_of_ascii "options options { }")).
-Eval vm_compute in ("<<<M2753>>>" ++ check (runes_of_ascii ": ) uint16 root as")).
-Eval vm_compute in ("<<<M3131>>>" ++ check (runes_of_ascii "packet A {
-}
-// c" ++ [8203]%N)).
-Eval vm_compute in ("<<<M3069>>>" ++ check (runes_of_ascii "packet A {
-}// c" ++ [160]%N)).
-Eval vm_compute in ("<<<M325>>>" ++ check (runes_of_ascii "packet Z9_ {	}
-")).
-Eval vm_compute in ("<<<M4282>>>" ++ check (runes_of_ascii "packet Z9_ {
-}")).
-Eval vm_compute in ("<<<M2816>>>" ++ check (runes_of_ascii "uint64 as {")).
-Eval vm_compute in ("<<<M2462>>>" ++ check (runes_of_ascii "Metadata")).
-Eval vm_compute in ("<<<M2426>>>" ++ check (runes_of_ascii "char [")).
-Eval vm_compute in ("<<<M2464>>>" ++ check (runes_of_ascii "match")).
-Eval vm_compute in ("<<<M4128>>>" ++ check (runes_of_ascii "
-// c")).
-Eval vm_compute in ("<<<M2436>>>" ++ check (runes_of_ascii "u8x")).
-Eval vm_compute in ("<<<M205>>>" ++ check (runes_of_ascii "
-
-")).
-Eval vm_compute in ("<<<M2551>>>" ++ check ([233]%N)).
+Eval vm_compute in ("<<<M1019>>>" ++ check (runes_of_ascii "// c" ++ [8239]%N)).
